@@ -1,3 +1,8 @@
+/*
+ * SPDX-License-Identifier: AGPL-3.0-only
+ * Copyright (c) 2022-2026, daeuniverse Organization <dae@v2raya.org>
+ */
+
 package control
 
 import (
@@ -23,12 +28,11 @@ import (
 	"github.com/sirupsen/logrus"
 	"golang.org/x/sync/singleflight"
 )
-import verifsim "github.com/daeuniverse/dae/internal/verifsim"
 
-var _ = verifsim.Yield
-var _ sync.Locker
-
-var dnsResponseBufPool = verifsim.Pool{
+// dnsResponseBufPool is a pool for DNS response buffers.
+// This avoids memory allocation on every cache hit for ID patching.
+// Typical DNS response size is under 512 bytes, we allocate 1024 to be safe.
+var dnsResponseBufPool = sync.Pool{
 	New: func() any {
 		buf := make([]byte, 1024)
 		return &buf
@@ -36,121 +40,125 @@ var dnsResponseBufPool = verifsim.Pool{
 }
 
 const (
-	MaxDnsLookupDepth	= 3
-	minFirefoxCacheTtl	= 120
+	MaxDnsLookupDepth  = 3
+	minFirefoxCacheTtl = 120
 )
 
 type IpVersionPrefer int
 
 const (
-	IpVersionPrefer_No	IpVersionPrefer	= 0
-	IpVersionPrefer_4	IpVersionPrefer	= 4
-	IpVersionPrefer_6	IpVersionPrefer	= 6
+	IpVersionPrefer_No IpVersionPrefer = 0
+	IpVersionPrefer_4  IpVersionPrefer = 4
+	IpVersionPrefer_6  IpVersionPrefer = 6
 )
 
 var (
-	ErrUnsupportedQuestionType		= fmt.Errorf("unsupported question type")
-	ErrDNSQueryConcurrencyLimitExceeded	= errors.New("dns query concurrency limit exceeded")
-	ErrDNSUDPConnPoolExhausted		= errors.New("dns udp conn pool exhausted")
-	ErrDNSTruncated				= errors.New("dns response truncated")
+	ErrUnsupportedQuestionType          = fmt.Errorf("unsupported question type")
+	ErrDNSQueryConcurrencyLimitExceeded = errors.New("dns query concurrency limit exceeded")
+	ErrDNSUDPConnPoolExhausted          = errors.New("dns udp conn pool exhausted")
+	ErrDNSTruncated                     = errors.New("dns response truncated")
 )
 
 var (
-	UnspecifiedAddressA		= netip.MustParseAddr("0.0.0.0")
-	UnspecifiedAddressAAAA		= netip.MustParseAddr("::")
-	DnsCacheRouteRefreshInterval	= 10 * time.Second
-	dnsCacheJanitorInterval		= 30 * time.Second
-	dnsForwarderIdleTTL		= 2 * time.Minute
+	UnspecifiedAddressA          = netip.MustParseAddr("0.0.0.0")
+	UnspecifiedAddressAAAA       = netip.MustParseAddr("::")
+	DnsCacheRouteRefreshInterval = 10 * time.Second // Aligned with health check granularity (default 30s)
+	dnsCacheJanitorInterval      = 30 * time.Second
+	dnsForwarderIdleTTL          = 2 * time.Minute
 )
 
 type DnsControllerOption struct {
-	Log			*logrus.Logger
-	LifecycleContext	context.Context
-	CacheAccessCallback	func(cache *DnsCache) (err error)
-	CacheRemoveCallback	func(cache *DnsCache) (err error)
-	CacheDeleteCallback	func(cacheKey string, cache *DnsCache) (err error)
-	NewCache		func(fqdn string, answers, ns, extra []dnsmessage.RR, deadline time.Time, originalDeadline time.Time) (cache *DnsCache, err error)
-	BestDialerChooser	func(ctx context.Context, req *udpRequest, upstream *dns.Upstream) (*dialArgument, error)
-	TimeoutExceedCallback	func(dialArgument *dialArgument, err error)
-	IpVersionPrefer		int
-	FixedDomainTtl		map[string]int
-	ConcurrencyLimit	int
-	OptimisticCache		bool
-	OptimisticCacheTtl	int	// 0 means never expire (rely on LRU eviction)
-	MaxCacheSize		int	// maximum number of cache entries (0 = unlimited)
+	Log                   *logrus.Logger
+	LifecycleContext      context.Context
+	CacheAccessCallback   func(cache *DnsCache) (err error)
+	CacheRemoveCallback   func(cache *DnsCache) (err error)
+	CacheDeleteCallback   func(cacheKey string, cache *DnsCache) (err error)
+	NewCache              func(fqdn string, answers, ns, extra []dnsmessage.RR, deadline time.Time, originalDeadline time.Time) (cache *DnsCache, err error)
+	BestDialerChooser     func(ctx context.Context, req *udpRequest, upstream *dns.Upstream) (*dialArgument, error)
+	TimeoutExceedCallback func(dialArgument *dialArgument, err error)
+	IpVersionPrefer       int
+	FixedDomainTtl        map[string]int
+	ConcurrencyLimit      int
+	OptimisticCache       bool
+	OptimisticCacheTtl    int // 0 means never expire (rely on LRU eviction)
+	MaxCacheSize          int // maximum number of cache entries (0 = unlimited)
 }
 
 type dnsControllerRuntimeState struct {
-	routing			*dns.Dns
-	lifecycleCtx		context.Context
-	cacheAccessCallback	func(cache *DnsCache) (err error)
-	cacheRemoveCallback	func(cache *DnsCache) (err error)
-	cacheDeleteCallback	func(cacheKey string, cache *DnsCache) (err error)
-	newCache		func(fqdn string, answers, ns, extra []dnsmessage.RR, deadline time.Time, originalDeadline time.Time) (cache *DnsCache, err error)
-	bestDialerChooser	func(ctx context.Context, req *udpRequest, upstream *dns.Upstream) (*dialArgument, error)
-	timeoutExceedCallback	func(dialArgument *dialArgument, err error)
-	fixedDomainTtl		map[string]int
+	routing               *dns.Dns
+	lifecycleCtx          context.Context
+	cacheAccessCallback   func(cache *DnsCache) (err error)
+	cacheRemoveCallback   func(cache *DnsCache) (err error)
+	cacheDeleteCallback   func(cacheKey string, cache *DnsCache) (err error)
+	newCache              func(fqdn string, answers, ns, extra []dnsmessage.RR, deadline time.Time, originalDeadline time.Time) (cache *DnsCache, err error)
+	bestDialerChooser     func(ctx context.Context, req *udpRequest, upstream *dns.Upstream) (*dialArgument, error)
+	timeoutExceedCallback func(dialArgument *dialArgument, err error)
+	fixedDomainTtl        map[string]int
 }
 
 type dnsControllerStore struct {
 	// dnsCache uses sync.Map for lock-free concurrent access
-	dnsCache		verifsim.Map	// map[string]*DnsCache
-	dnsKnowledge		verifsim.Map	// map[string]int64 (base cache key -> original deadline unix nano)
-	dnsKnowledgeMu		verifsim.Mutex
-	dnsForwarderCache	verifsim.Map	// map[dnsForwarderKey]*cachedDnsForwarder
-	sf			singleflight.Group
+	dnsCache          sync.Map // map[string]*DnsCache
+	dnsKnowledge      sync.Map // map[string]int64 (base cache key -> original deadline unix nano)
+	dnsKnowledgeMu    sync.Mutex
+	dnsForwarderCache sync.Map // map[dnsForwarderKey]*cachedDnsForwarder
+	sf                singleflight.Group
 
-	janitorStop	chan struct{}
-	janitorDone	chan struct{}
-	evictorDone	chan struct{}
-	evictorQ	chan *DnsCache
-	evictorWake	chan struct{}
-	evictorChMu	verifsim.RWMutex
-	evictorMu	verifsim.Mutex
-	evictorBuf	[]*DnsCache
-	lruScratchMu	verifsim.Mutex
-	lruScratch	[]cacheEntry
-	closeOnce	verifsim.Once
+	janitorStop  chan struct{}
+	janitorDone  chan struct{}
+	evictorDone  chan struct{}
+	evictorQ     chan *DnsCache
+	evictorWake  chan struct{}
+	evictorChMu  sync.RWMutex
+	evictorMu    sync.Mutex
+	evictorBuf   []*DnsCache
+	lruScratchMu sync.Mutex
+	lruScratch   []cacheEntry
+	closeOnce    sync.Once
 
 	// Async BPF update: uses a single goroutine with bounded channel
 	// to process BPF map updates off the hot path.
-	bpfUpdateCh	chan *bpfUpdateTask
-	bpfUpdateStop	chan struct{}
-	bpfUpdateStopMu	verifsim.Mutex	// Protects bpfUpdateStop initialization and closing
-	bpfUpdateWg	sync.WaitGroup
-	bpfUpdateOnce	verifsim.Once
-	bpfUpdateClosed	atomic.Bool
+	bpfUpdateCh     chan *bpfUpdateTask
+	bpfUpdateStop   chan struct{}
+	bpfUpdateStopMu sync.Mutex // Protects bpfUpdateStop initialization and closing
+	bpfUpdateWg     sync.WaitGroup
+	bpfUpdateOnce   sync.Once
+	bpfUpdateClosed atomic.Bool
 
 	// prefWaitRegistry manages waits for preferred DNS response types.
 	// When ip_version_prefer is set, non-preferred responses wait briefly
 	// for preferred responses to arrive (RFC 8305 Happy Eyeballs).
-	prefWaitRegistry	*preferenceWaitRegistry
+	prefWaitRegistry *preferenceWaitRegistry
 }
 
+// DnsController is a lightweight generation-local facade over a shared
+// dnsControllerStore. The zero value is not ready for production use; construct
+// controllers with NewDnsController, ReuseForReload, or dedicated test helpers
+// so the shared store invariant is established before business methods run.
 type DnsController struct {
 	*dnsControllerStore
 
-	concurrencyLimiter	chan struct{}
+	concurrencyLimiter chan struct{}
 
-	qtypePrefer		atomic.Uint32
-	optimisticCacheEnabled	atomic.Bool
-	optimisticCacheTtl	atomic.Int64	// seconds, 0 means never expire
-	maxCacheSize		atomic.Int64	// maximum number of cache entries (0 = unlimited)
-	dnsForwarderIdleTTL	time.Duration
-	log			*logrus.Logger
-	runtimeState		atomic.Pointer[dnsControllerRuntimeState]
+	qtypePrefer            atomic.Uint32
+	optimisticCacheEnabled atomic.Bool
+	optimisticCacheTtl     atomic.Int64 // seconds, 0 means never expire
+	maxCacheSize           atomic.Int64 // maximum number of cache entries (0 = unlimited)
+	dnsForwarderIdleTTL    time.Duration
+	log                    *logrus.Logger
+	runtimeState           atomic.Pointer[dnsControllerRuntimeState]
 }
 
 func newDnsControllerStore() *dnsControllerStore {
 	return &dnsControllerStore{
-		dnsCache:		verifsim.Map{},
-		dnsForwarderCache:	verifsim.Map{},
-		janitorStop:		make(chan struct{}),
-		janitorDone:		make(chan struct{}),
-		evictorDone:		make(chan struct{}),
-		evictorQ:		make(chan *DnsCache, 512),
-		evictorWake:		make(chan struct{}, 1),
-		prefWaitRegistry:	newPreferenceWaitRegistry(),
+		dnsCache:          sync.Map{},
+		dnsForwarderCache: sync.Map{},
+		janitorStop:       make(chan struct{}),
+		janitorDone:       make(chan struct{}),
+		evictorDone:       make(chan struct{}),
+		evictorQ:          make(chan *DnsCache, 512),
+		evictorWake:       make(chan struct{}, 1),
+		prefWaitRegistry:  newPreferenceWaitRegistry(),
 	}
 }
 
@@ -175,7 +183,10 @@ func (c *DnsController) requireStore() *dnsControllerStore {
 		return nil
 	}
 	if c.dnsControllerStore == nil {
-
+		// Business-path DNS methods require the shared store invariant to have
+		// been established by NewDnsController, ReuseForReload, or test helpers.
+		// Panic here so misuse fails fast instead of silently constructing an
+		// empty store and masking initialization bugs.
 		panic("DnsController.dnsControllerStore is nil; construct controllers with NewDnsController or test helpers")
 	}
 	return c.dnsControllerStore
@@ -195,13 +206,9 @@ func (c *DnsController) copyBehaviorConfigTo(dst *DnsController) {
 	if c == nil || dst == nil {
 		return
 	}
-	verifsim.Yield("dns_control.go:209")
 	dst.qtypePrefer.Store(c.qtypePrefer.Load())
-	verifsim.Yield("dns_control.go:210")
 	dst.optimisticCacheEnabled.Store(c.optimisticCacheEnabled.Load())
-	verifsim.Yield("dns_control.go:211")
 	dst.optimisticCacheTtl.Store(c.optimisticCacheTtl.Load())
-	verifsim.Yield("dns_control.go:212")
 	dst.maxCacheSize.Store(c.maxCacheSize.Load())
 }
 
@@ -211,14 +218,13 @@ func (c *DnsController) sharedStoreFacade() *DnsController {
 	}
 	store := c.requireStore()
 	facade := &DnsController{
-		dnsControllerStore:	store,
-		concurrencyLimiter:	c.concurrencyLimiter,
-		dnsForwarderIdleTTL:	c.dnsForwarderIdleTTL,
-		log:			c.log,
+		dnsControllerStore:  store,
+		concurrencyLimiter:  c.concurrencyLimiter,
+		dnsForwarderIdleTTL: c.dnsForwarderIdleTTL,
+		log:                 c.log,
 	}
 	c.copyBehaviorConfigTo(facade)
 	if rt := c.runtime(); rt != nil {
-		verifsim.Yield("dns_control.go:228")
 		facade.runtimeState.Store(rt)
 	}
 	return facade
@@ -228,7 +234,6 @@ func (c *DnsController) currentQtypePrefer() uint16 {
 	if c == nil {
 		return 0
 	}
-	verifsim.Yield("dns_control.go:237")
 	return uint16(c.qtypePrefer.Load())
 }
 
@@ -236,10 +241,16 @@ func (c *DnsController) currentOptimisticCacheConfig() (enabled bool, ttl int, m
 	if c == nil {
 		return false, 0, 0
 	}
-	verifsim.Yield("dns_control.go:244")
 	return c.optimisticCacheEnabled.Load(), int(c.optimisticCacheTtl.Load()), int(c.maxCacheSize.Load())
 }
 
+// ReuseForReload updates the current facade to the replacement generation's
+// runtime and returns a fresh facade that shares the same long-lived store.
+// The shared store carries DNS cache, forwarders, janitors, and async BPF
+// update workers across reloads, while each facade owns its generation-local
+// runtime pointer and behavior config. The old control plane publishes the new
+// facade as a handoff bridge so ActiveDnsController observes the replacement
+// runtime without a nil window during reload retirement.
 func (c *DnsController) ReuseForReload(option *DnsControllerOption, routing *dns.Dns) (*DnsController, error) {
 	if c == nil {
 		return nil, nil
@@ -259,7 +270,6 @@ func (c *DnsController) CloneCacheForReload() map[string]*DnsCache {
 		return nil
 	}
 	result := make(map[string]*DnsCache)
-	verifsim.Yield("dns_control.go:273")
 	c.dnsCache.Range(func(key, value any) bool {
 		k, ok1 := key.(string)
 		v, ok2 := value.(*DnsCache)
@@ -273,9 +283,10 @@ func (c *DnsController) CloneCacheForReload() map[string]*DnsCache {
 	return result
 }
 
+// dnsCacheEntryLive returns the liveness test of a published entry: is it still
+// the value stored under its key.
 func (c *DnsController) dnsCacheEntryLive(cacheKey string, entry *DnsCache) func() bool {
 	return func() bool {
-		verifsim.Yield("dns_control.go:290")
 		cur, ok := c.dnsCache.Load(cacheKey)
 		return ok && cur == any(entry)
 	}
@@ -287,11 +298,7 @@ func (c *DnsController) RestoreReloadCache(entries map[string]*DnsCache, matchDo
 	}
 	c.requireStore()
 	count := 0
-	for _, k := range verifsim.SortedKeys(entries) {
-		v, _vok1 := entries[k]
-		if !_vok1 {
-			continue
-		}
+	for k, v := range entries {
 		if v == nil {
 			continue
 		}
@@ -299,11 +306,11 @@ func (c *DnsController) RestoreReloadCache(entries map[string]*DnsCache, matchDo
 			v.DomainBitmap = matchDomainBitmap(v.GetFqdn())
 		}
 		v.routeLive = c.dnsCacheEntryLive(k, v)
-		verifsim.Yield("dns_control.go:309")
 		c.dnsCache.Store(k, v)
 		c.rememberDnsKnowledge(dnsCacheBaseKey(k), v.OriginalDeadline)
-		verifsim.Yield("dns_control.go:314")
-
+		// The replay is a burst as large as the cache and its entries may never be
+		// looked up again: apply the routing update here instead of handing it to the
+		// bounded asynchronous queue, which drops what does not fit.
 		if rt := c.runtime(); rt != nil && rt.cacheAccessCallback != nil && !c.bpfUpdateClosed.Load() && v.NeedsBpfUpdate(now) {
 			c.processBpfUpdateTask(&bpfUpdateTask{cache: v, now: now}, false)
 		}
@@ -312,14 +319,16 @@ func (c *DnsController) RestoreReloadCache(entries map[string]*DnsCache, matchDo
 	return count
 }
 
+// bpfUpdateTask represents a BPF map update request.
 type bpfUpdateTask struct {
-	cache	*DnsCache
-	now	time.Time
+	cache *DnsCache
+	now   time.Time
 }
 
+// cacheEntry represents a DNS cache entry with its access time for LRU eviction.
 type cacheEntry struct {
-	key		string
-	lastAccess	int64
+	key        string
+	lastAccess int64
 }
 
 func parseIpVersionPreference(prefer int) (uint16, error) {
@@ -380,18 +389,14 @@ func NewDnsController(routing *dns.Dns, option *DnsControllerOption) (c *DnsCont
 	}
 
 	controller := &DnsController{
-		dnsControllerStore:	newDnsControllerStore(),
-		concurrencyLimiter:	make(chan struct{}, limit),
-		log:			option.Log,
-		dnsForwarderIdleTTL:	dnsForwarderIdleTTL,
+		dnsControllerStore:  newDnsControllerStore(),
+		concurrencyLimiter:  make(chan struct{}, limit), // 0 means no limit (unbuffered channel, always non-blocking)
+		log:                 option.Log,
+		dnsForwarderIdleTTL: dnsForwarderIdleTTL, // Use package-level default
 	}
-	verifsim.Yield("dns_control.go:397")
 	controller.qtypePrefer.Store(uint32(prefer))
-	verifsim.Yield("dns_control.go:398")
 	controller.optimisticCacheEnabled.Store(optimisticCacheEnabled)
-	verifsim.Yield("dns_control.go:399")
 	controller.optimisticCacheTtl.Store(int64(optimisticCacheTtl))
-	verifsim.Yield("dns_control.go:400")
 	controller.maxCacheSize.Store(int64(maxCacheSize))
 	if err := controller.TryUpdateRuntime(option, routing); err != nil {
 		return nil, err
@@ -413,30 +418,25 @@ func (c *DnsController) updateRuntime(option *DnsControllerOption, routing *dns.
 	if err != nil {
 		return err
 	}
-	verifsim.Yield("dns_control.go:421")
 	c.qtypePrefer.Store(uint32(qtypePrefer))
-	verifsim.Yield("dns_control.go:422")
 	c.optimisticCacheEnabled.Store(optimisticCacheEnabled)
-	verifsim.Yield("dns_control.go:423")
 	c.optimisticCacheTtl.Store(int64(optimisticCacheTtl))
-	verifsim.Yield("dns_control.go:424")
 	c.maxCacheSize.Store(int64(maxCacheSize))
 	c.log = option.Log
 	lifecycleCtx := option.LifecycleContext
 	if lifecycleCtx == nil {
 		lifecycleCtx = context.Background()
 	}
-	verifsim.Yield("dns_control.go:430")
 	c.runtimeState.Store(&dnsControllerRuntimeState{
-		routing:		routing,
-		lifecycleCtx:		lifecycleCtx,
-		cacheAccessCallback:	option.CacheAccessCallback,
-		cacheRemoveCallback:	option.CacheRemoveCallback,
-		cacheDeleteCallback:	option.CacheDeleteCallback,
-		newCache:		option.NewCache,
-		bestDialerChooser:	option.BestDialerChooser,
-		timeoutExceedCallback:	option.TimeoutExceedCallback,
-		fixedDomainTtl:		option.FixedDomainTtl,
+		routing:               routing,
+		lifecycleCtx:          lifecycleCtx,
+		cacheAccessCallback:   option.CacheAccessCallback,
+		cacheRemoveCallback:   option.CacheRemoveCallback,
+		cacheDeleteCallback:   option.CacheDeleteCallback,
+		newCache:              option.NewCache,
+		bestDialerChooser:     option.BestDialerChooser,
+		timeoutExceedCallback: option.TimeoutExceedCallback,
+		fixedDomainTtl:        option.FixedDomainTtl,
 	})
 	return nil
 }
@@ -445,14 +445,17 @@ func (c *DnsController) runtime() *dnsControllerRuntimeState {
 	if c == nil {
 		return nil
 	}
-	verifsim.Yield("dns_control.go:448")
 	return c.runtimeState.Load()
 }
 
+// TryUpdateRuntime updates generation-local DNS runtime state and reports
+// invalid behavior config via error.
 func (c *DnsController) TryUpdateRuntime(option *DnsControllerOption, routing *dns.Dns) error {
 	return c.updateRuntime(option, routing)
 }
 
+// UpdateRuntime preserves the historical panic-on-invalid-input API for
+// external callers. New internal code should use TryUpdateRuntime.
 func (c *DnsController) UpdateRuntime(option *DnsControllerOption, routing *dns.Dns) {
 	if err := c.TryUpdateRuntime(option, routing); err != nil {
 		panic(err)
@@ -475,37 +478,35 @@ func (c *DnsController) Close() error {
 		return nil
 	}
 	var (
-		bpfWorkerDone	<-chan struct{}
-		janitorDone	<-chan struct{}
-		evictorDone	<-chan struct{}
+		bpfWorkerDone <-chan struct{}
+		janitorDone   <-chan struct{}
+		evictorDone   <-chan struct{}
 	)
-	verifsim.Yield("dns_control.go:489")
 
+	// Acquire lock before closeOnce to synchronize with startBpfUpdateWorker.
+	// This prevents the race where Close and startBpfUpdateWorker access
+	// bpfUpdateStop concurrently.
 	c.bpfUpdateStopMu.Lock()
-	verifsim.Yield("dns_control.go:490")
 	c.closeOnce.Do(func() {
-		verifsim.Yield("dns_control.go:491")
 		c.bpfUpdateClosed.Store(true)
-
+		// Stop BPF update worker (if it was started).
 		if c.bpfUpdateStop != nil {
-			verifsim.Yield("dns_control.go:495")
-
+			// Signal worker to stop and drain remaining tasks
 			close(c.bpfUpdateStop)
-
+			// Wait for worker to finish draining.
 			done := make(chan struct{})
-			verifsim.Go("dns_control.go:498", func() {
-				verifsim.Yield("dns_control.go:499")
+			go func() {
 				c.bpfUpdateWg.Wait()
-				verifsim.Yield("dns_control.go:499+")
-				verifsim.Yield("dns_control.go:500")
 				close(done)
-			})
+			}()
 			bpfWorkerDone = done
-
+			// Note: We intentionally do NOT close bpfUpdateCh here.
+			// Closing the channel while concurrent sends might be in progress
+			// would cause panics. Instead, the channel will be garbage collected
+			// when the DnsController is no longer referenced.
 		}
 
 		if c.janitorStop != nil {
-			verifsim.Yield("dns_control.go:510")
 			close(c.janitorStop)
 		}
 		if c.janitorDone != nil {
@@ -522,118 +523,55 @@ func (c *DnsController) Close() error {
 		defer timer.Stop()
 
 		for bpfWorkerDone != nil || janitorDone != nil || evictorDone != nil {
-			{
-				verifsim.Yield("dns_control.go:526")
-				_vc2 := bpfWorkerDone
-				_vc3 := janitorDone
-				_vc4 := evictorDone
-				_vc5 := timer.C
-				_vi6 := -1
-				for _, _vo7 := range verifsim.SelectOrder("dns_control.go:526", 4) {
-					switch _vo7 {
-					case 0:
-						select {
-						case <-_vc2:
-							_vi6 = 0
-						default:
-						}
-					case 1:
-						select {
-						case <-_vc3:
-							_vi6 = 1
-						default:
-						}
-					case 2:
-						select {
-						case <-_vc4:
-							_vi6 = 2
-						default:
-						}
-					case 3:
-						select {
-						case <-_vc5:
-							_vi6 = 3
-						default:
-						}
+			select {
+			case <-bpfWorkerDone:
+				bpfWorkerDone = nil
+			case <-janitorDone:
+				janitorDone = nil
+			case <-evictorDone:
+				evictorDone = nil
+			case <-timer.C:
+				if c.log != nil {
+					if bpfWorkerDone != nil {
+						c.log.Warn("DnsController.Close: timeout waiting for bpfUpdateWg")
 					}
-					if _vi6 >= 0 {
-						break
+					if janitorDone != nil {
+						c.log.Warn("DnsController.Close: timeout waiting for janitorDone")
+					}
+					if evictorDone != nil {
+						c.log.Warn("DnsController.Close: timeout waiting for evictorDone")
 					}
 				}
-				if _vi6 < 0 {
-					select {
-					case <-_vc2:
-						_vi6 = 0
-					case <-_vc3:
-						_vi6 = 1
-					case <-_vc4:
-						_vi6 = 2
-					case <-_vc5:
-						_vi6 = 3
-					}
-					verifsim.Yield("dns_control.go:526+")
-				}
-				switch _vi6 {
-				case 0:
-					bpfWorkerDone = nil
-				case 1:
-
-					janitorDone = nil
-				case 2:
-
-					evictorDone = nil
-				case 3:
-
-					if c.log != nil {
-						if bpfWorkerDone != nil {
-							c.log.Warn("DnsController.Close: timeout waiting for bpfUpdateWg")
-						}
-						if janitorDone != nil {
-							c.log.Warn("DnsController.Close: timeout waiting for janitorDone")
-						}
-						if evictorDone != nil {
-							c.log.Warn("DnsController.Close: timeout waiting for evictorDone")
-						}
-					}
-					bpfWorkerDone = nil
-					janitorDone = nil
-					evictorDone = nil
-				default:
-					panic("verifsim: select dispatch: no case chosen")
-				}
+				bpfWorkerDone = nil
+				janitorDone = nil
+				evictorDone = nil
 			}
-
 		}
 	}
 
 	errs := c.closeAllDnsForwarders()
-	verifsim.Yield("dns_control.go:557")
 
+	// Clear dnsCache to prevent memory leak on reload.
+	// Each DnsCache entry contains DomainBitmap and Answer which can accumulate
+	// significant memory over time if not released.
 	c.dnsCache.Range(func(key, value any) bool {
-		verifsim.Yield("dns_control.go:558")
 		c.dnsCache.Delete(key)
 		return true
 	})
-	verifsim.Yield("dns_control.go:561")
 	c.dnsKnowledge.Range(func(key, value any) bool {
-		verifsim.Yield("dns_control.go:562")
 		c.dnsKnowledge.Delete(key)
 		return true
 	})
-	verifsim.Yield("dns_control.go:565")
 	c.evictorMu.Lock()
 	c.evictorBuf = nil
 	c.evictorMu.Unlock()
-	verifsim.Yield("dns_control.go:568")
 	c.lruScratchMu.Lock()
 	c.lruScratch = nil
 	c.lruScratchMu.Unlock()
-	verifsim.Yield("dns_control.go:571")
 	c.evictorChMu.Lock()
 	c.evictorWake = nil
 	c.evictorQ = nil
 	c.evictorChMu.Unlock()
-	verifsim.Yield("dns_control.go:575")
 	c.bpfUpdateStopMu.Lock()
 	c.bpfUpdateCh = nil
 	c.bpfUpdateStop = nil
@@ -647,10 +585,8 @@ func (c *DnsController) closeAllDnsForwarders() []error {
 		return nil
 	}
 	var errs []error
-	verifsim.Yield("dns_control.go:588")
 	c.dnsForwarderCache.Range(func(key, value any) bool {
 		k := key.(dnsForwarderKey)
-		verifsim.Yield("dns_control.go:590")
 		c.dnsForwarderCache.Delete(k)
 		switch entry := value.(type) {
 		case *cachedDnsForwarder:
@@ -675,12 +611,10 @@ func (c *DnsController) retireAllDnsForwarders() []error {
 		return nil
 	}
 	var errs []error
-	verifsim.Yield("dns_control.go:614")
 	c.dnsForwarderCache.Range(func(key, value any) bool {
 		k := key.(dnsForwarderKey)
 		switch entry := value.(type) {
 		case *cachedDnsForwarder:
-			verifsim.Yield("dns_control.go:618")
 			if !c.dnsForwarderCache.CompareAndDelete(k, entry) {
 				return true
 			}
@@ -688,7 +622,6 @@ func (c *DnsController) retireAllDnsForwarders() []error {
 				errs = append(errs, fmt.Errorf("retire dns forwarder %q: %w", k.upstream, err))
 			}
 		default:
-			verifsim.Yield("dns_control.go:625")
 			if !c.dnsForwarderCache.CompareAndDelete(k, value) {
 				return true
 			}
@@ -708,31 +641,34 @@ func (c *DnsController) ResetDnsForwarders() error {
 	if c == nil || c.dnsControllerStore == nil {
 		return nil
 	}
-
+	// Retire cached forwarders so new requests redial using the replacement
+	// generation's runtime, while in-flight upstream exchanges finish cleanly.
 	return errors.Join(c.retireAllDnsForwarders()...)
 }
 
 var (
+	// Pre-computed strings for common DNS query types to reduce allocations
+	// in the hot path. Fallback to strconv.Itoa for uncommon types.
 	qtypeStrCache = map[uint16]string{
-		dnsmessage.TypeA:	"1",
-		dnsmessage.TypeNS:	"2",
-		dnsmessage.TypeCNAME:	"5",
-		dnsmessage.TypePTR:	"12",
-		dnsmessage.TypeMX:	"15",
-		dnsmessage.TypeTXT:	"16",
-		dnsmessage.TypeAAAA:	"28",
-		dnsmessage.TypeSRV:	"33",
+		dnsmessage.TypeA:     "1",
+		dnsmessage.TypeNS:    "2",
+		dnsmessage.TypeCNAME: "5",
+		dnsmessage.TypePTR:   "12",
+		dnsmessage.TypeMX:    "15",
+		dnsmessage.TypeTXT:   "16",
+		dnsmessage.TypeAAAA:  "28",
+		dnsmessage.TypeSRV:   "33",
 	}
 )
 
 func (c *DnsController) cacheKey(qname string, qtype uint16) string {
-
+	// To fqdn.
 	qname = dnsmessage.CanonicalName(qname)
-
+	// Fast path: use pre-computed string for common qtypes
 	if s, ok := qtypeStrCache[qtype]; ok {
 		return qname + s
 	}
-
+	// Slow path: fallback to strconv for uncommon types
 	return qname + strconv.Itoa(int(qtype))
 }
 
@@ -783,9 +719,9 @@ func ensureDNSCacheRouteOwnerKey(cacheKey string, cache *DnsCache) *DnsCache {
 
 func aggregateDNSRemovalCandidate(caches []*DnsCache) *DnsCache {
 	var (
-		base	*DnsCache
-		answers	[]dnsmessage.RR
-		seen	= make(map[netip.Addr]struct{})
+		base    *DnsCache
+		answers []dnsmessage.RR
+		seen    = make(map[netip.Addr]struct{})
 	)
 
 	for _, cache := range caches {
@@ -812,13 +748,17 @@ func aggregateDNSRemovalCandidate(caches []*DnsCache) *DnsCache {
 		return nil
 	}
 	return &DnsCache{
-		DomainBitmap:		base.DomainBitmap,
-		Answer:			answers,
-		Deadline:		base.Deadline,
-		OriginalDeadline:	base.OriginalDeadline,
+		DomainBitmap:     base.DomainBitmap,
+		Answer:           answers,
+		Deadline:         base.Deadline,
+		OriginalDeadline: base.OriginalDeadline,
 	}
 }
 
+// orphanedDnsSideEffects filters removal side effects against the authoritative
+// remaining cache state for the same base key. Once scoped cache keys exist,
+// removing one scoped entry must not blindly delete IP-derived side effects
+// that are still backed by another live scoped entry.
 func (c *DnsController) orphanedDnsSideEffects(baseKey string, candidate *DnsCache) *DnsCache {
 	if candidate == nil {
 		return nil
@@ -828,7 +768,6 @@ func (c *DnsController) orphanedDnsSideEffects(baseKey string, candidate *DnsCac
 	}
 
 	liveIPs := make(map[netip.Addr]struct{})
-	verifsim.Yield("dns_control.go:771")
 	c.dnsCache.Range(func(key, value any) bool {
 		cacheKey, ok := key.(string)
 		if !ok || dnsCacheBaseKey(cacheKey) != baseKey {
@@ -836,7 +775,6 @@ func (c *DnsController) orphanedDnsSideEffects(baseKey string, candidate *DnsCac
 		}
 		cache, ok := value.(*DnsCache)
 		if !ok {
-			verifsim.Yield("dns_control.go:778")
 			c.dnsCache.Delete(cacheKey)
 			return true
 		}
@@ -870,10 +808,10 @@ func (c *DnsController) orphanedDnsSideEffects(baseKey string, candidate *DnsCac
 		return nil
 	}
 	return &DnsCache{
-		DomainBitmap:		candidate.DomainBitmap,
-		Answer:			orphaned,
-		Deadline:		candidate.Deadline,
-		OriginalDeadline:	candidate.OriginalDeadline,
+		DomainBitmap:     candidate.DomainBitmap,
+		Answer:           orphaned,
+		Deadline:         candidate.Deadline,
+		OriginalDeadline: candidate.OriginalDeadline,
 	}
 }
 
@@ -885,7 +823,6 @@ func (c *DnsController) onBaseKeySideEffectsEvicted(baseKey string, candidate *D
 
 func (c *DnsController) RemoveDnsRespCache(cacheKey string) {
 	c.requireStore()
-	verifsim.Yield("dns_control.go:826")
 	if removed, ok := c.dnsCache.LoadAndDelete(cacheKey); ok {
 		if cache, ok := removed.(*DnsCache); ok {
 			baseKey := dnsCacheBaseKey(cacheKey)
@@ -902,7 +839,6 @@ func (c *DnsController) RemoveDnsRespCacheFamily(baseKey string) {
 		return
 	}
 	var removedCaches []*DnsCache
-	verifsim.Yield("dns_control.go:842")
 	c.dnsCache.Range(func(key, value any) bool {
 		cacheKey, ok := key.(string)
 		if !ok || dnsCacheBaseKey(cacheKey) != baseKey {
@@ -910,11 +846,9 @@ func (c *DnsController) RemoveDnsRespCacheFamily(baseKey string) {
 		}
 		cache, ok := value.(*DnsCache)
 		if !ok {
-			verifsim.Yield("dns_control.go:849")
 			c.dnsCache.Delete(cacheKey)
 			return true
 		}
-		verifsim.Yield("dns_control.go:852")
 		if c.dnsCache.CompareAndDelete(cacheKey, cache) {
 			c.invokeCacheDeleteCallback(cacheKey, cache)
 			removedCaches = append(removedCaches, cache)
@@ -930,20 +864,16 @@ func (c *DnsController) rememberDnsKnowledge(baseKey string, originalDeadline ti
 		return
 	}
 	expiresAt := originalDeadline.UnixNano()
-	verifsim.Yield("dns_control.go:867")
 	c.dnsKnowledgeMu.Lock()
 	defer c.dnsKnowledgeMu.Unlock()
-	verifsim.Yield("dns_control.go:870")
 
 	current, ok := c.dnsKnowledge.Load(baseKey)
 	if !ok {
-		verifsim.Yield("dns_control.go:872")
 		c.dnsKnowledge.Store(baseKey, expiresAt)
 		return
 	}
 	currentExpiresAt, ok := current.(int64)
 	if !ok || currentExpiresAt < expiresAt {
-		verifsim.Yield("dns_control.go:877")
 		c.dnsKnowledge.Store(baseKey, expiresAt)
 	}
 }
@@ -955,11 +885,9 @@ func (c *DnsController) forgetDnsKnowledge(cacheKey string, cache *DnsCache) {
 	}
 
 	deletedExpiresAt := cache.OriginalDeadline.UnixNano()
-	verifsim.Yield("dns_control.go:889")
 
 	c.dnsKnowledgeMu.Lock()
 	defer c.dnsKnowledgeMu.Unlock()
-	verifsim.Yield("dns_control.go:892")
 
 	current, ok := c.dnsKnowledge.Load(baseKey)
 	if !ok {
@@ -980,7 +908,6 @@ func (c *DnsController) syncDnsKnowledge(baseKey string) {
 	if baseKey == "" {
 		return
 	}
-	verifsim.Yield("dns_control.go:911")
 	c.dnsKnowledgeMu.Lock()
 	defer c.dnsKnowledgeMu.Unlock()
 	c.syncDnsKnowledgeLocked(baseKey)
@@ -989,7 +916,6 @@ func (c *DnsController) syncDnsKnowledge(baseKey string) {
 func (c *DnsController) syncDnsKnowledgeLocked(baseKey string) {
 	nowNano := time.Now().UnixNano()
 	var maxExpiresAt int64
-	verifsim.Yield("dns_control.go:920")
 
 	c.dnsCache.Range(func(key, value any) bool {
 		cacheKey, ok := key.(string)
@@ -998,7 +924,6 @@ func (c *DnsController) syncDnsKnowledgeLocked(baseKey string) {
 		}
 		cache, ok := value.(*DnsCache)
 		if !ok {
-			verifsim.Yield("dns_control.go:927")
 			c.dnsCache.Delete(cacheKey)
 			return true
 		}
@@ -1011,11 +936,9 @@ func (c *DnsController) syncDnsKnowledgeLocked(baseKey string) {
 	})
 
 	if maxExpiresAt == 0 {
-		verifsim.Yield("dns_control.go:939")
 		c.dnsKnowledge.Delete(baseKey)
 		return
 	}
-	verifsim.Yield("dns_control.go:942")
 	c.dnsKnowledge.Store(baseKey, maxExpiresAt)
 }
 
@@ -1024,32 +947,28 @@ func (c *DnsController) HasDnsKnowledge(baseKey string) bool {
 	if baseKey == "" {
 		return false
 	}
-	verifsim.Yield("dns_control.go:950")
 	value, ok := c.dnsKnowledge.Load(baseKey)
 	if !ok {
 		return false
 	}
 	expiresAt, ok := value.(int64)
 	if !ok {
-		verifsim.Yield("dns_control.go:956")
 		c.dnsKnowledge.Delete(baseKey)
 		return false
 	}
 	if expiresAt <= time.Now().UnixNano() {
-		verifsim.Yield("dns_control.go:960")
 		c.dnsKnowledge.CompareAndDelete(baseKey, value)
 		return false
 	}
 	return true
 }
 
+// startBpfUpdateWorker lazily starts the BPF update worker goroutine.
+// This is called on-demand when the first BPF update is needed.
 func (c *DnsController) startBpfUpdateWorker() {
 	c.requireStore()
-	verifsim.Yield("dns_control.go:970")
 	c.bpfUpdateOnce.Do(func() {
-		verifsim.Yield("dns_control.go:971")
 		c.bpfUpdateStopMu.Lock()
-		verifsim.Yield("dns_control.go:972")
 		if c.bpfUpdateClosed.Load() {
 			c.bpfUpdateStopMu.Unlock()
 			return
@@ -1057,18 +976,14 @@ func (c *DnsController) startBpfUpdateWorker() {
 		bpfUpdateQueueSize := verifDnsUpdateQueueSize(1024)
 		c.bpfUpdateCh = make(chan *bpfUpdateTask, bpfUpdateQueueSize)
 		c.bpfUpdateStop = make(chan struct{})
-		verifsim.Yield("dns_control.go:979")
 		c.bpfUpdateWg.Add(1)
 		c.bpfUpdateStopMu.Unlock()
-		{
-			_vf8 := c.bpfUpdateWorker
-			verifsim.Go("dns_control.go:981", func() {
-				_vf8()
-			})
-		}
+		go c.bpfUpdateWorker()
 	})
 }
 
+// processBpfUpdateTask executes a single BPF map update task.
+// Returns true if the task was processed, false if it was nil/empty.
 func (c *DnsController) processBpfUpdateTask(task *bpfUpdateTask, draining bool) bool {
 	if task == nil || task.cache == nil {
 		return false
@@ -1089,94 +1004,49 @@ func (c *DnsController) processBpfUpdateTask(task *bpfUpdateTask, draining bool)
 	return true
 }
 
+// bpfUpdateWorker processes BPF map updates asynchronously.
+// It runs until bpfUpdateStop is closed, then drains remaining tasks and exits.
+// Note: bpfUpdateCh is never closed; the worker exits when bpfUpdateStop is signaled.
+//
+// IMPORTANT: This goroutine intentionally does NOT watch baseContext().Done().
+// When the DnsController is reused across reload generations (ReuseDNSControllerFrom),
+// UpdateRuntime swaps the lifecycleCtx, but goroutines blocked in select still hold
+// a reference to the OLD context's Done channel. If the old generation's context is
+// canceled during retirement, the worker would exit prematurely, permanently killing
+// BPF domain_routing_map updates (sync.Once prevents restart). The worker exits only
+// via bpfUpdateStop, which is closed during DnsController.Close().
 func (c *DnsController) bpfUpdateWorker() {
 	defer c.bpfUpdateWg.Done()
 
 	for {
-		{
-			verifsim.Yield("dns_control.go:1022")
-			_vc9 := c.bpfUpdateCh
-			var _vr10 = verifsim.ChanZero(_vc9)
-			_vc11 := c.bpfUpdateStop
-			_vi12 := -1
-			for _, _vo13 := range verifsim.SelectOrder("dns_control.go:1022", 2) {
-				switch _vo13 {
-				case 0:
-					select {
-					case _vr10 = <-_vc9:
-						_vi12 = 0
-					default:
-					}
-				case 1:
-					select {
-					case <-_vc11:
-						_vi12 = 1
-					default:
-					}
-				}
-				if _vi12 >= 0 {
-					break
-				}
-			}
-			if _vi12 < 0 {
-				select {
-				case _vr10 = <-_vc9:
-					_vi12 = 0
-				case <-_vc11:
-					_vi12 = 1
-				}
-				verifsim.Yield("dns_control.go:1022+")
-			}
-			switch _vi12 {
-			case 0:
-				task := _vr10
-				c.processBpfUpdateTask(task, false)
-				c.drainBpfUpdateTasks(false)
-			case 1:
-
-				c.drainBpfUpdateTasks(true)
-				return
-			default:
-				panic("verifsim: select dispatch: no case chosen")
-			}
+		select {
+		case task := <-c.bpfUpdateCh:
+			c.processBpfUpdateTask(task, false)
+			c.drainBpfUpdateTasks(false)
+		case <-c.bpfUpdateStop:
+			c.drainBpfUpdateTasks(true)
+			return
 		}
-
 	}
 }
 
+// drainBpfUpdateTasks processes all pending tasks from bpfUpdateCh in a tight loop.
+// This reduces per-task scheduling overhead and allows the worker to catch up quickly
+// during bursts of DNS cache BPF updates.
 func (c *DnsController) drainBpfUpdateTasks(draining bool) {
 	for {
-		{
-			verifsim.Yield("dns_control.go:1038")
-			_vc14 := c.bpfUpdateCh
-			var _vr15 = verifsim.ChanZero(_vc14)
-			_vi16 := -1
-			for _, _vo17 := range verifsim.SelectOrder("dns_control.go:1038", 1) {
-				switch _vo17 {
-				case 0:
-					select {
-					case _vr15 = <-_vc14:
-						_vi16 = 0
-					default:
-					}
-				}
-				if _vi16 >= 0 {
-					break
-				}
-			}
-			switch _vi16 {
-			case 0:
-				task := _vr15
-				c.processBpfUpdateTask(task, draining)
-			default:
-
-				return
-			}
+		select {
+		case task := <-c.bpfUpdateCh:
+			c.processBpfUpdateTask(task, draining)
+		default:
+			return
 		}
-
 	}
 }
 
+// triggerBpfUpdateIfNeeded enqueues a BPF update task if needed.
+// This is non-blocking: if the queue is full, the update is skipped
+// (CAS in NeedsBpfUpdate ensures it will be retried next time).
 func (c *DnsController) triggerBpfUpdateIfNeeded(cache *DnsCache, now time.Time) {
 	c.requireStore()
 	rt := c.runtime()
@@ -1186,14 +1056,12 @@ func (c *DnsController) triggerBpfUpdateIfNeeded(cache *DnsCache, now time.Time)
 	if !cache.NeedsBpfUpdate(now) {
 		return
 	}
-	verifsim.Yield("dns_control.go:1060")
 
 	if c.bpfUpdateClosed.Load() {
 		return
 	}
 
 	c.startBpfUpdateWorker()
-	verifsim.Yield("dns_control.go:1066")
 
 	if c.bpfUpdateClosed.Load() {
 		return
@@ -1207,46 +1075,28 @@ func (c *DnsController) triggerBpfUpdateIfNeeded(cache *DnsCache, now time.Time)
 }
 
 func (c *DnsController) sendBpfUpdateTask(task *bpfUpdateTask) (sent bool) {
-	verifsim.Yield("dns_control.go:1080")
-
+	// Check if controller is shutting down before attempting send.
+	// This avoids the data race of reading bpfUpdateStop while it's being initialized.
 	if c.bpfUpdateClosed.Load() {
 		return false
 	}
-	verifsim.Yield("dns_control.go:1083")
 	c.bpfUpdateStopMu.Lock()
 	bpfUpdateCh := c.bpfUpdateCh
 	c.bpfUpdateStopMu.Unlock()
 	if bpfUpdateCh == nil {
 		return false
 	}
-	{
-		verifsim.Yield("dns_control.go:1092")
-		_vc18 := bpfUpdateCh
-		_vs19 := task
-		_vi20 := -1
-		for _, _vo21 := range verifsim.SelectOrder("dns_control.go:1092", 1) {
-			switch _vo21 {
-			case 0:
-				select {
-				case _vc18 <- _vs19:
-					_vi20 = 0
-				default:
-				}
-			}
-			if _vi20 >= 0 {
-				break
-			}
-		}
-		switch _vi20 {
-		case 0:
-			return true
-		default:
 
-			verifDnsUpdateDropped()
-			return false
-		}
+	// Try to send without blocking - if queue is full, skip this update.
+	// The worker will be notified on the next trigger.
+	select {
+	case bpfUpdateCh <- task:
+		return true
+	default:
+		// Queue is full, skip this update (will be retried on next access)
+		verifDnsUpdateDropped()
+		return false
 	}
-
 }
 
 func (c *DnsController) onDnsCacheEvicted(cache *DnsCache) {
@@ -1256,33 +1106,13 @@ func (c *DnsController) onDnsCacheEvicted(cache *DnsCache) {
 	}
 
 	if c.janitorStop != nil {
-		{
-			verifsim.Yield("dns_control.go:1109")
-			_vc22 := c.janitorStop
-			_vi23 := -1
-			for _, _vo24 := range verifsim.SelectOrder("dns_control.go:1109", 1) {
-				switch _vo24 {
-				case 0:
-					select {
-					case <-_vc22:
-						_vi23 = 0
-					default:
-					}
-				}
-				if _vi23 >= 0 {
-					break
-				}
-			}
-			switch _vi23 {
-			case 0:
-				c.invokeCacheRemoveCallback(cache)
-				return
-			default:
-			}
+		select {
+		case <-c.janitorStop:
+			c.invokeCacheRemoveCallback(cache)
+			return
+		default:
 		}
-
 	}
-	verifsim.Yield("dns_control.go:1117")
 
 	c.evictorChMu.RLock()
 	evictorQ := c.evictorQ
@@ -1291,40 +1121,23 @@ func (c *DnsController) onDnsCacheEvicted(cache *DnsCache) {
 		c.invokeCacheRemoveCallback(cache)
 		return
 	}
-	{
-		verifsim.Yield("dns_control.go:1125")
-		_vc25 := evictorQ
-		_vs26 := cache
-		_vi27 := -1
-		for _, _vo28 := range verifsim.SelectOrder("dns_control.go:1125", 1) {
-			switch _vo28 {
-			case 0:
-				select {
-				case _vc25 <- _vs26:
-					_vi27 = 0
-				default:
-				}
-			}
-			if _vi27 >= 0 {
-				break
-			}
-		}
-		switch _vi27 {
-		case 0:
-		default:
 
-			c.enqueueEvictorSpill(cache)
-		}
+	select {
+	case evictorQ <- cache:
+	default:
+		// Keep datapath non-blocking under eviction bursts without creating an
+		// unbounded number of short-lived goroutines. A single background worker
+		// drains this spill buffer with the same callback semantics.
+		c.enqueueEvictorSpill(cache)
 	}
-
 }
 
 func (c *DnsController) enqueueEvictorSpill(cache *DnsCache) {
 	if cache == nil {
 		return
 	}
-	verifsim.Yield("dns_control.go:1141")
-
+	// If the evictor worker was never initialized, fall back to direct removal.
+	// This preserves behavior for manually constructed test controllers.
 	c.evictorChMu.RLock()
 	evictorWake := c.evictorWake
 	c.evictorChMu.RUnlock()
@@ -1332,39 +1145,18 @@ func (c *DnsController) enqueueEvictorSpill(cache *DnsCache) {
 		c.invokeCacheRemoveCallback(cache)
 		return
 	}
-	verifsim.Yield("dns_control.go:1149")
 
 	c.evictorMu.Lock()
 	c.evictorBuf = append(c.evictorBuf, cache)
 	c.evictorMu.Unlock()
-	{
-		verifsim.Yield("dns_control.go:1153")
-		_vc29 := evictorWake
-		_vs30 := struct{}{}
-		_vi31 := -1
-		for _, _vo32 := range verifsim.SelectOrder("dns_control.go:1153", 1) {
-			switch _vo32 {
-			case 0:
-				select {
-				case _vc29 <- _vs30:
-					_vi31 = 0
-				default:
-				}
-			}
-			if _vi31 >= 0 {
-				break
-			}
-		}
-		switch _vi31 {
-		case 0:
-		default:
-		}
-	}
 
+	select {
+	case evictorWake <- struct{}{}:
+	default:
+	}
 }
 
 func (c *DnsController) takeEvictorSpillBatch() []*DnsCache {
-	verifsim.Yield("dns_control.go:1160")
 	c.evictorMu.Lock()
 	defer c.evictorMu.Unlock()
 	if len(c.evictorBuf) == 0 {
@@ -1415,7 +1207,6 @@ func (c *DnsController) evictDnsRespCacheIfSame(cacheKey string, cache *DnsCache
 	if cache == nil {
 		return
 	}
-	verifsim.Yield("dns_control.go:1210")
 	if c.dnsCache.CompareAndDelete(cacheKey, cache) {
 		baseKey := dnsCacheBaseKey(cacheKey)
 		c.forgetDnsKnowledge(cacheKey, cache)
@@ -1426,46 +1217,51 @@ func (c *DnsController) evictDnsRespCacheIfSame(cacheKey string, cache *DnsCache
 
 func (c *DnsController) evictExpiredDnsCache(now time.Time) {
 	optimisticCacheEnabled, optimisticCacheTtl, maxCacheSize := c.currentOptimisticCacheConfig()
-
+	// Step 1: Time-based eviction
+	// - When optimistic_cache_ttl > 0: evict entries older than (deadline + stale_window)
+	// - When optimistic_cache_ttl == 0 AND maxCacheSize > 0: skip time-based eviction (rely on LRU)
+	// - When both are 0 (backward compat / direct struct creation): use deadline-based eviction
 	useTimeBasedEviction := optimisticCacheTtl > 0 || (optimisticCacheTtl == 0 && maxCacheSize == 0)
 
 	if useTimeBasedEviction {
-		verifsim.Yield("dns_control.go:1227")
 		c.dnsCache.Range(func(key, value any) bool {
 			cacheKey, ok := key.(string)
 			if !ok {
-				verifsim.Yield("dns_control.go:1230")
 				c.dnsCache.Delete(key)
 				return true
 			}
 			cache, ok := value.(*DnsCache)
 			if !ok {
-				verifsim.Yield("dns_control.go:1235")
 				c.dnsCache.Delete(cacheKey)
 				return true
 			}
 
+			// Calculate effective deadline
+			// - If optimistic cache is enabled and ttl > 0: use (deadline + optimisticCacheTtl)
+			// - Otherwise: use deadline directly
 			effectiveDeadline := cache.Deadline
 			if optimisticCacheEnabled && optimisticCacheTtl > 0 {
 				effectiveDeadline = cache.Deadline.Add(time.Duration(optimisticCacheTtl) * time.Second)
 			}
 
 			if effectiveDeadline.After(now) {
-				return true
+				return true // Still valid, keep it
 			}
 
+			// Too stale or expired without optimistic cache, evict it
 			c.evictDnsRespCacheIfSame(cacheKey, cache)
 			return true
 		})
 	}
 
+	// Step 2: LRU eviction if cache size exceeds limit
+	// This is important when optimistic_cache_ttl=0 (never expire)
 	if maxCacheSize > 0 {
 		c.evictLRUIfFull()
 	}
 }
 
 func (c *DnsController) takeLRUScratch(minCap int) []cacheEntry {
-	verifsim.Yield("dns_control.go:1265")
 	c.lruScratchMu.Lock()
 	defer c.lruScratchMu.Unlock()
 
@@ -1485,7 +1281,6 @@ func (c *DnsController) putLRUScratch(entries []cacheEntry) {
 	}
 
 	clear(entries)
-	verifsim.Yield("dns_control.go:1285")
 
 	c.lruScratchMu.Lock()
 	if cap(entries) > cap(c.lruScratch) {
@@ -1494,11 +1289,15 @@ func (c *DnsController) putLRUScratch(entries []cacheEntry) {
 	c.lruScratchMu.Unlock()
 }
 
+// evictLRUIfFull evicts least recently used entries if cache size exceeds limit.
+// OPTIMIZATION: Uses heap selection algorithm (O(n + k log n)) instead of
+// full sort (O(n log n)) or insertion sort (O(n²)) for better performance
+// with large caches. For typical cache sizes (<1000), the overhead is negligible.
+// For large caches (>5000), this is 10-100x faster than insertion sort.
 func (c *DnsController) evictLRUIfFull() {
 	_, _, maxCacheSize := c.currentOptimisticCacheConfig()
 	// Count current cache size
 	var count int
-	verifsim.Yield("dns_control.go:1301")
 	c.dnsCache.Range(func(_, _ any) bool {
 		count++
 		return true
@@ -1508,14 +1307,17 @@ func (c *DnsController) evictLRUIfFull() {
 		return
 	}
 
+	// Find and evict oldest entries
+	// Need to evict (count - maxCacheSize) entries
 	numToEvict := count - maxCacheSize
 
+	// Collect all cache entries with their access times
+	// Reuse a scratch buffer to avoid allocating a new slice on every janitor run.
 	entries := c.takeLRUScratch(count)
 	scratch := entries
 	defer func() {
 		c.putLRUScratch(scratch)
 	}()
-	verifsim.Yield("dns_control.go:1321")
 	c.dnsCache.Range(func(key, value any) bool {
 		cacheKey, ok := key.(string)
 		if !ok {
@@ -1525,37 +1327,43 @@ func (c *DnsController) evictLRUIfFull() {
 		if !ok {
 			return true
 		}
-		verifsim.Yield("dns_control.go:1330")
 		entries = append(entries, cacheEntry{
-			key:		cacheKey,
-			lastAccess:	cache.lastAccessNano.Load(),
+			key:        cacheKey,
+			lastAccess: cache.lastAccessNano.Load(),
 		})
 		return true
 	})
 	scratch = entries
 
+	// Use heap selection to find the k oldest entries.
+	// Build a min-heap and extract k elements: O(n + k log n)
+	// This is more efficient than full sort O(n log n) when k << n.
 	if numToEvict < len(entries) {
-
+		// Build min-heap based on lastAccess (smallest = oldest)
 		buildMinHeap(entries)
 
+		// Extract k oldest entries from heap
 		for i := range numToEvict {
-
+			// Swap root (minimum) with last element
 			lastIdx := len(entries) - 1 - i
 			entries[0], entries[lastIdx] = entries[lastIdx], entries[0]
 
+			// Restore heap property for remaining elements
 			heapifyMin(entries, 0, lastIdx)
 		}
 
+		// The k oldest are now at the end of entries (indices len-n to len-1)
 		entries = entries[len(entries)-numToEvict:]
 	}
 
+	// Evict oldest entries
 	evicted := 0
 	for _, entry := range entries {
 		if evicted >= numToEvict {
 			break
 		}
-		verifsim.Yield("dns_control.go:1367")
 
+		// Load cache again to get current reference
 		if val, ok := c.dnsCache.Load(entry.key); ok {
 			if cache, ok := val.(*DnsCache); ok {
 				c.evictDnsRespCacheIfSame(entry.key, cache)
@@ -1565,67 +1373,40 @@ func (c *DnsController) evictLRUIfFull() {
 	}
 }
 
+// startDnsCacheJanitor runs a periodic goroutine that evicts expired DNS cache
+// entries and retires idle DNS forwarders.
+//
+// IMPORTANT: This goroutine intentionally does NOT watch baseContext().Done().
+// See bpfUpdateWorker comment for the rationale — the same stale-context problem
+// applies here when the DnsController is reused across reload generations.
 func (c *DnsController) startDnsCacheJanitor() {
 	c.requireStore()
-	verifsim.Go("dns_control.go:1384", func() {
+	go func() {
 		ticker := time.NewTicker(dnsCacheJanitorInterval)
 		defer ticker.Stop()
 		defer close(c.janitorDone)
 
 		for {
-			{
-				verifsim.Yield("dns_control.go:1390")
-				_vc33 := c.janitorStop
-				_vc34 := ticker.C
-				var _vr35 = verifsim.ChanZero(_vc34)
-				_vi36 := -1
-				for _, _vo37 := range verifsim.SelectOrder("dns_control.go:1390", 2) {
-					switch _vo37 {
-					case 0:
-						select {
-						case <-_vc33:
-							_vi36 = 0
-						default:
-						}
-					case 1:
-						select {
-						case _vr35 = <-_vc34:
-							_vi36 = 1
-						default:
-						}
-					}
-					if _vi36 >= 0 {
-						break
-					}
-				}
-				if _vi36 < 0 {
-					select {
-					case <-_vc33:
-						_vi36 = 0
-					case _vr35 = <-_vc34:
-						_vi36 = 1
-					}
-					verifsim.Yield("dns_control.go:1390+")
-				}
-				switch _vi36 {
-				case 0:
-					return
-				case 1:
-					now := _vr35
-					c.evictExpiredDnsCache(now)
-					c.evictIdleDnsForwarders(now)
-				default:
-					panic("verifsim: select dispatch: no case chosen")
-				}
+			select {
+			case <-c.janitorStop:
+				return
+			case now := <-ticker.C:
+				c.evictExpiredDnsCache(now)
+				c.evictIdleDnsForwarders(now)
 			}
-
 		}
-	})
+	}()
 }
 
+// startCacheEvictor runs a goroutine that processes asynchronous cache eviction
+// callbacks (CacheRemoveCallback / BatchRemoveDomainRouting).
+//
+// IMPORTANT: This goroutine intentionally does NOT watch baseContext().Done().
+// See bpfUpdateWorker comment for the rationale — the same stale-context problem
+// applies here when the DnsController is reused across reload generations.
 func (c *DnsController) startCacheEvictor() {
 	c.requireStore()
-	verifsim.Go("dns_control.go:1409", func() {
+	go func() {
 		defer close(c.evictorDone)
 		if c.evictorQ == nil {
 			return
@@ -1635,102 +1416,29 @@ func (c *DnsController) startCacheEvictor() {
 		}
 
 		for {
-			{
-				verifsim.Yield("dns_control.go:1419")
-				_vc38 := c.evictorQ
-				var _vr39 = verifsim.ChanZero(_vc38)
-				_vc40 := c.evictorWake
-				_vc41 := c.janitorStop
-				_vi42 := -1
-				for _, _vo43 := range verifsim.SelectOrder("dns_control.go:1419", 3) {
-					switch _vo43 {
-					case 0:
-						select {
-						case _vr39 = <-_vc38:
-							_vi42 = 0
-						default:
-						}
-					case 1:
-						select {
-						case <-_vc40:
-							_vi42 = 1
-						default:
-						}
-					case 2:
-						select {
-						case <-_vc41:
-							_vi42 = 2
-						default:
-						}
-					}
-					if _vi42 >= 0 {
-						break
-					}
-				}
-				if _vi42 < 0 {
+			select {
+			case cache := <-c.evictorQ:
+				c.invokeCacheRemoveCallback(cache)
+				c.drainEvictorSpill()
+			case <-c.evictorWake:
+				c.drainEvictorSpill()
+			case <-c.janitorStop:
+				for {
 					select {
-					case _vr39 = <-_vc38:
-						_vi42 = 0
-					case <-_vc40:
-						_vi42 = 1
-					case <-_vc41:
-						_vi42 = 2
+					case cache := <-c.evictorQ:
+						c.invokeCacheRemoveCallback(cache)
+					default:
+						c.drainEvictorSpill()
+						return
 					}
-					verifsim.Yield("dns_control.go:1419+")
-				}
-				switch _vi42 {
-				case 0:
-					cache := _vr39
-					c.invokeCacheRemoveCallback(cache)
-					c.drainEvictorSpill()
-				case 1:
-
-					c.drainEvictorSpill()
-				case 2:
-
-					for {
-						{
-							verifsim.Yield("dns_control.go:1427")
-							_vc44 := c.evictorQ
-							var _vr45 = verifsim.ChanZero(_vc44)
-							_vi46 := -1
-							for _, _vo47 := range verifsim.SelectOrder("dns_control.go:1427", 1) {
-								switch _vo47 {
-								case 0:
-									select {
-									case _vr45 = <-_vc44:
-										_vi46 = 0
-									default:
-									}
-								}
-								if _vi46 >= 0 {
-									break
-								}
-							}
-							switch _vi46 {
-							case 0:
-								cache := _vr45
-								c.invokeCacheRemoveCallback(cache)
-							default:
-
-								c.drainEvictorSpill()
-								return
-							}
-						}
-
-					}
-				default:
-					panic("verifsim: select dispatch: no case chosen")
 				}
 			}
-
 		}
-	})
+	}()
 }
 
 func (c *DnsController) LookupDnsRespCache(cacheKey string, ignoreFixedTtl bool) (cache *DnsCache) {
 	c.requireStore()
-	verifsim.Yield("dns_control.go:1442")
 	val, ok := c.dnsCache.Load(cacheKey)
 	if !ok {
 		return nil
@@ -1743,20 +1451,28 @@ func (c *DnsController) LookupDnsRespCache(cacheKey string, ignoreFixedTtl bool)
 	} else {
 		deadline = cache.OriginalDeadline
 	}
-
+	// We should make sure the cache did not expire, or
+	// return nil and request a new lookup to refresh the cache.
 	if !deadline.After(now) {
 		c.evictDnsRespCacheIfSame(cacheKey, cache)
 		return nil
 	}
-
+	// OPTIMIZATION: Asynchronous BPF map update to keep hot path fast.
+	// BPF update happens in background goroutine with bounded queue.
+	// CAS in NeedsBpfUpdate ensures update is triggered at most once per interval.
 	c.triggerBpfUpdateIfNeeded(cache, now)
 	return cache
 }
 
+// LookupDnsRespCache_ will modify the msg in place.
+
+// OPTIMIZED: Uses pre-packed response with approximate TTL for near-zero latency.
+// TTL is refreshed when difference exceeds ttlRefreshThresholdSeconds (15 seconds by default).
+// OPTIMISTIC CACHE (RFC 8767): Returns stale response while background refresh is in progress.
+// Falls back to an owned in-place TTL-aware pack if pre-packed response is not available.
 func (c *DnsController) LookupDnsRespCache_(msg *dnsmessage.Msg, cacheKey string, ignoreFixedTtl bool) (resp []byte, needRefresh bool) {
 	c.requireStore()
-	verifsim.Yield("dns_control.go:1476")
-
+	// Load cache directly without expiry check (to support optimistic cache)
 	val, ok := c.dnsCache.Load(cacheKey)
 	if !ok {
 		return nil, false
@@ -1764,8 +1480,8 @@ func (c *DnsController) LookupDnsRespCache_(msg *dnsmessage.Msg, cacheKey string
 	cache := val.(*DnsCache)
 
 	now := time.Now()
-	verifsim.Yield("dns_control.go:1485")
 
+	// Update last access time for LRU eviction (atomic operation)
 	cache.lastAccessNano.Store(now.UnixNano())
 
 	// Determine deadline based on ignoreFixedTtl
@@ -1776,6 +1492,7 @@ func (c *DnsController) LookupDnsRespCache_(msg *dnsmessage.Msg, cacheKey string
 		deadline = cache.OriginalDeadline
 	}
 
+	// Fast path: use pre-packed response with approximate TTL (fresh response)
 	if deadline.After(now) {
 		// Extract qname and qtype from the message for TTL refresh
 		var qname string
@@ -1786,23 +1503,30 @@ func (c *DnsController) LookupDnsRespCache_(msg *dnsmessage.Msg, cacheKey string
 		}
 
 		if resp := cache.GetPackedResponseWithApproximateTTL(qname, qtype, now); resp != nil {
-
+			// Fresh cache hit - return immediately
+			// Trigger async BPF update if needed
 			c.triggerBpfUpdateIfNeeded(cache, now)
 			return resp, false
 		}
 
+		// Fallback: pre-packed response not available, use the owned in-place path.
+		// LookupDnsRespCache_ already owns dnsMessage exclusively and is documented
+		// to mutate it in place, so this avoids the extra request copy on the
+		// remaining TTL-aware cache-hit fallback.
 		if resp = cache.fillIntoWithTTLInPlace(msg, now); resp != nil {
 			return resp, false
 		}
 		return nil, false
 	}
 
+	// Cache expired - check if optimistic cache is enabled
 	optimisticCacheEnabled, optimisticCacheTtl, _ := c.currentOptimisticCacheConfig()
 	if optimisticCacheEnabled {
-
+		// Try stale response (RFC 8767)
+		// Use optimisticCacheTtl (0 means never expire)
 		if resp = cache.GetStaleResponse(now, optimisticCacheTtl); resp != nil {
-			verifsim.Yield("dns_control.go:1530")
-
+			// Within stale window - return stale response and trigger background refresh
+			// Use CAS to ensure only one goroutine triggers refresh
 			if cache.refreshing.CompareAndSwap(false, true) {
 				needRefresh = true
 			}
@@ -1810,12 +1534,15 @@ func (c *DnsController) LookupDnsRespCache_(msg *dnsmessage.Msg, cacheKey string
 		}
 	}
 
+	// Cache expired and beyond stale window (or optimistic cache disabled)
+	// Evict the cache
 	c.evictDnsRespCacheIfSame(cacheKey, cache)
 	return nil, false
 }
 
+// NormalizeAndCacheDnsResp_ handle DNS resp in place.
 func (c *DnsController) NormalizeAndCacheDnsResp_(msg *dnsmessage.Msg, responseCacheKey string) (err error) {
-
+	// Check healthy resp.
 	if !msg.Response || len(msg.Question) == 0 || msg.Rcode != dnsmessage.RcodeSuccess {
 		return nil
 	}
@@ -1836,30 +1563,33 @@ func (c *DnsController) NormalizeAndCacheDnsResp_(msg *dnsmessage.Msg, responseC
 			}
 		}
 	} else {
-
+		// NXDomain or empty answer
 		ttl = minFirefoxCacheTtl
 	}
 
+	// Clamp TTL to 1 year max to prevent integer overflow when casting to int on 32-bit platforms
 	if ttl > 31536000 {
 		ttl = 31536000
 	}
 
+	// For A/AAAA records, we set TTL to 0 to prevent downstream caching while we manage it.
 	if q.Qtype == dnsmessage.TypeA || q.Qtype == dnsmessage.TypeAAAA {
 		for i := range msg.Answer {
 			msg.Answer[i].Header().Ttl = 0
 		}
 	}
 
+	// Update DnsCache.
 	return c.updateDnsCache(msg, responseCacheKey, ttl, &q)
 }
 
 func (c *DnsController) updateDnsCache(msg *dnsmessage.Msg, responseCacheKey string, ttl uint32, q *dnsmessage.Question) error {
-
+	// Update DnsCache.
 	if c.log.IsLevelEnabled(logrus.TraceLevel) {
 		c.log.WithFields(logrus.Fields{
-			"_qname":	q.Name,
-			"rcode":	msg.Rcode,
-			"ans":		FormatDnsRsc(msg.Answer),
+			"_qname": q.Name,
+			"rcode":  msg.Rcode,
+			"ans":    FormatDnsRsc(msg.Answer),
 		}).Tracef("Update DNS record cache")
 	}
 
@@ -1869,6 +1599,10 @@ func (c *DnsController) updateDnsCache(msg *dnsmessage.Msg, responseCacheKey str
 	return nil
 }
 
+// staleDnsSideEffects builds a minimal cache entry containing only IP answers
+// that exist in prev but not in next. This lets us remove stale domain-routing
+// side effects after replacing a cache entry without deleting IPs that are
+// still present in the refreshed cache.
 func staleDnsSideEffects(prev, next *DnsCache) *DnsCache {
 	if prev == nil {
 		return nil
@@ -1924,7 +1658,7 @@ func (c *DnsController) __updateDnsCacheDeadline(cacheKey string, host string, d
 	} else {
 		fqdn = dnsmessage.CanonicalName(host)
 	}
-
+	// Bypass pure IP.
 	if _, err = netip.ParseAddr(host); err == nil {
 		return nil
 	}
@@ -1937,6 +1671,8 @@ func (c *DnsController) __updateDnsCacheDeadline(cacheKey string, host string, d
 	}
 	baseKey := dnsCacheBaseKey(cacheKey)
 
+	// Atomic cache update: create new cache entry and store it atomically
+	// This allows concurrent updates without blocking each other
 	rt := c.runtime()
 	if rt == nil || rt.newCache == nil {
 		return fmt.Errorf("dns controller runtime newCache is not configured")
@@ -1945,35 +1681,37 @@ func (c *DnsController) __updateDnsCacheDeadline(cacheKey string, host string, d
 	if err != nil {
 		return err
 	}
-	verifsim.Yield("dns_control.go:1686")
-
+	// The packed-response fast path and the stale-while-revalidate window both read
+	// the cached copy of the deadline; it must be set before the entry is published.
 	newCache.deadlineNano.Store(deadline.UnixNano())
 
+	// OPTIMIZATION: Pre-pack the DNS response before publishing the cache entry.
+	// This avoids Pack() overhead on cache hits while keeping the published RR
+	// values unchanged.
 	if err = newCache.prepackResponseBeforeStore(fqdn, dnsTyp, ttlFromDeadline(deadline, now), now); err != nil {
 		if c.log != nil {
 			c.log.Warnf("failed to prepack DNS response: %v", err)
 		}
-
+		// Continue without pre-packed response - will fall back to Pack() on hit
 	}
-	verifsim.Yield("dns_control.go:1701")
 
+	// LRU recency belongs to the key, not to the entry object: a refreshed entry
+	// inherits the last access of the entry it replaces, a brand-new entry counts
+	// as used now (it is being fetched for a client).
 	newCache.lastAccessNano.Store(now.UnixNano())
 	var staleSideEffects *DnsCache
-	verifsim.Yield("dns_control.go:1703")
 	if oldValue, ok := c.dnsCache.Load(cacheKey); ok {
 		if oldCache, ok := oldValue.(*DnsCache); ok {
 			staleSideEffects = staleDnsSideEffects(oldCache, newCache)
-			verifsim.Yield("dns_control.go:1706")
 			if last := oldCache.lastAccessNano.Load(); last != 0 {
-				verifsim.Yield("dns_control.go:1707")
 				newCache.lastAccessNano.Store(last)
 			}
 		}
 	}
 
+	// Store atomically - concurrent writes don't block each other
 	newCache.RouteOwnerKey = cacheKey
 	newCache.routeLive = c.dnsCacheEntryLive(cacheKey, newCache)
-	verifsim.Yield("dns_control.go:1715")
 	c.dnsCache.Store(cacheKey, newCache)
 	c.rememberDnsKnowledge(baseKey, originalDeadline)
 
@@ -1982,7 +1720,7 @@ func (c *DnsController) __updateDnsCacheDeadline(cacheKey string, host string, d
 			return err
 		}
 	}
-
+	// Mark BPF as updated with current data hash to enable differential updates
 	newCache.MarkBpfUpdated(now)
 	if staleSideEffects != nil {
 		staleSideEffects.RouteOwnerKey = cacheKey
@@ -1997,7 +1735,7 @@ func (c *DnsController) UpdateDnsCacheTtl(host string, dnsTyp uint16, answers, n
 	return c.__updateDnsCacheDeadline("", host, dnsTyp, answers, ns, extra, func(now time.Time, host string) (daedline time.Time, originalDeadline time.Time) {
 		originalDeadline = now.Add(time.Duration(ttl) * time.Second)
 		if rt := c.runtime(); rt != nil {
-
+			// DNS names are case-insensitive; clients may spell the question in any case.
 			if fixedTtl, ok := rt.fixedDomainTtl[strings.ToLower(host)]; ok {
 				return now.Add(time.Duration(fixedTtl) * time.Second), originalDeadline
 			}
@@ -2011,7 +1749,7 @@ func (c *DnsController) UpdateDnsCacheTtlWithKey(cacheKey string, host string, d
 	return c.__updateDnsCacheDeadline(cacheKey, host, dnsTyp, answers, ns, extra, func(now time.Time, host string) (deadline time.Time, originalDeadline time.Time) {
 		originalDeadline = now.Add(time.Duration(ttl) * time.Second)
 		if rt := c.runtime(); rt != nil {
-
+			// DNS names are case-insensitive; clients may spell the question in any case.
 			if fixedTtl, ok := rt.fixedDomainTtl[strings.ToLower(host)]; ok {
 				return now.Add(time.Duration(fixedTtl) * time.Second), originalDeadline
 			}
@@ -2021,13 +1759,13 @@ func (c *DnsController) UpdateDnsCacheTtlWithKey(cacheKey string, host string, d
 }
 
 type udpRequest struct {
-	realSrc		netip.AddrPort
-	realDst		netip.AddrPort
-	src		netip.AddrPort
-	lConn		*net.UDPConn
-	routingResult	*bpfRoutingResult
-	uploadRecord	func(int64)
-	downloadRecord	func(int64)
+	realSrc        netip.AddrPort
+	realDst        netip.AddrPort
+	src            netip.AddrPort
+	lConn          *net.UDPConn
+	routingResult  *bpfRoutingResult
+	uploadRecord   func(int64)
+	downloadRecord func(int64)
 }
 
 func (r *udpRequest) uploadRecorder() func(int64) {
@@ -2045,36 +1783,36 @@ func (r *udpRequest) downloadRecorder() func(int64) {
 }
 
 type dialArgument struct {
-	l4proto		consts.L4ProtoStr
-	ipversion	consts.IpVersionStr
-	bestDialer	*dialer.Dialer
-	bestOutbound	*outbound.DialerGroup
-	bestTarget	netip.AddrPort
-	mark		uint32
-	mptcp		bool
+	l4proto      consts.L4ProtoStr
+	ipversion    consts.IpVersionStr
+	bestDialer   *dialer.Dialer
+	bestOutbound *outbound.DialerGroup
+	bestTarget   netip.AddrPort
+	mark         uint32
+	mptcp        bool
 }
 
 type dnsForwarderKey struct {
-	upstream	string
-	l4proto		consts.L4ProtoStr
-	ipversion	consts.IpVersionStr
-	dialerName	string
-	outboundName	string
-	bestTarget	netip.AddrPort
-	mark		uint32
-	mptcp		bool
+	upstream     string
+	l4proto      consts.L4ProtoStr
+	ipversion    consts.IpVersionStr
+	dialerName   string
+	outboundName string
+	bestTarget   netip.AddrPort
+	mark         uint32
+	mptcp        bool
 }
 
 type cachedDnsForwarder struct {
-	forwarder	DnsForwarder
-	lastUsedNano	atomic.Int64
-	inFlight	atomic.Int32
-	retired		atomic.Bool
-	closeOnce	verifsim.Once
+	forwarder    DnsForwarder
+	lastUsedNano atomic.Int64
+	inFlight     atomic.Int32
+	retired      atomic.Bool
+	closeOnce    sync.Once
 	// consecutiveErrors counts back-to-back failures.  A single success
 	// resets the counter.  When it reaches maxConsecutiveForwardErrors the
 	// forwarder is retired even for stream-based upstream schemes.
-	consecutiveErrors	atomic.Int32
+	consecutiveErrors atomic.Int32
 }
 
 const maxConsecutiveForwardErrors = 3
@@ -2086,23 +1824,18 @@ func newCachedDnsForwarder(forwarder DnsForwarder, now time.Time) *cachedDnsForw
 }
 
 func (c *cachedDnsForwarder) touch(now time.Time) {
-	verifsim.Yield("dns_control.go:1827")
 	c.lastUsedNano.Store(now.UnixNano())
 }
 
 func (c *cachedDnsForwarder) beginUse() bool {
-	verifsim.Yield("dns_control.go:1831")
 	if c == nil || c.retired.Load() {
 		return false
 	}
-	verifsim.Yield("dns_control.go:1834")
 	c.inFlight.Add(1)
 	c.touch(time.Now())
-	verifsim.Yield("dns_control.go:1836")
 	if !c.retired.Load() {
 		return true
 	}
-	verifsim.Yield("dns_control.go:1839")
 	if c.inFlight.Add(-1) == 0 {
 		_ = c.closeNow()
 	}
@@ -2114,7 +1847,6 @@ func (c *cachedDnsForwarder) endUse() {
 		return
 	}
 	c.touch(time.Now())
-	verifsim.Yield("dns_control.go:1850")
 	if c.inFlight.Add(-1) == 0 && c.retired.Load() {
 		_ = c.closeNow()
 	}
@@ -2125,7 +1857,6 @@ func (c *cachedDnsForwarder) closeNow() error {
 		return nil
 	}
 	var err error
-	verifsim.Yield("dns_control.go:1860")
 	c.closeOnce.Do(func() {
 		if c.forwarder != nil {
 			err = c.forwarder.Close()
@@ -2138,9 +1869,7 @@ func (c *cachedDnsForwarder) retire() error {
 	if c == nil {
 		return nil
 	}
-	verifsim.Yield("dns_control.go:1872")
 	c.retired.Store(true)
-	verifsim.Yield("dns_control.go:1873")
 	if c.inFlight.Load() == 0 {
 		return c.closeNow()
 	}
@@ -2169,12 +1898,10 @@ func (c *DnsController) evictIdleDnsForwarders(now time.Time) {
 	idleNano := c.dnsForwarderIdleTTL.Nanoseconds()
 	var toClose []DnsForwarder
 	var toRetire []*cachedDnsForwarder
-	verifsim.Yield("dns_control.go:1902")
 
 	c.dnsForwarderCache.Range(func(key, value any) bool {
 		k, ok := key.(dnsForwarderKey)
 		if !ok {
-			verifsim.Yield("dns_control.go:1905")
 			c.dnsForwarderCache.Delete(key)
 			return true
 		}
@@ -2182,27 +1909,22 @@ func (c *DnsController) evictIdleDnsForwarders(now time.Time) {
 		entry, ok := value.(*cachedDnsForwarder)
 		if !ok {
 			if forwarder := c.extractDnsForwarder(value); forwarder != nil {
-				verifsim.Yield("dns_control.go:1912")
 				if c.dnsForwarderCache.CompareAndDelete(k, value) {
 					toClose = append(toClose, forwarder)
 				}
 			} else {
-				verifsim.Yield("dns_control.go:1916")
 				c.dnsForwarderCache.Delete(k)
 			}
 			return true
 		}
-		verifsim.Yield("dns_control.go:1921")
 
 		if entry.inFlight.Load() > 0 {
 			return true
 		}
-		verifsim.Yield("dns_control.go:1924")
 		lastUsedNano := entry.lastUsedNano.Load()
 		if lastUsedNano == 0 || nowNano-lastUsedNano <= idleNano {
 			return true
 		}
-		verifsim.Yield("dns_control.go:1929")
 
 		if c.dnsForwarderCache.CompareAndDelete(k, entry) {
 			toRetire = append(toRetire, entry)
@@ -2210,6 +1932,10 @@ func (c *DnsController) evictIdleDnsForwarders(now time.Time) {
 		return true
 	})
 
+	// A query may have loaded the entry (or even begun using it) between the
+	// checks above and the removal: retire() lets it finish and closes the
+	// forwarder exactly once after the last in-flight query; later beginUse
+	// calls fail and the caller creates a fresh forwarder.
 	for _, entry := range toRetire {
 		if err := entry.retire(); err != nil && c.log != nil {
 			c.log.WithError(err).Debugln("failed to close idle dns forwarder")
@@ -2230,7 +1956,7 @@ func (c *DnsController) reportDnsForwardFailure(dialArg *dialArgument, err error
 	if dialArg == nil || err == nil {
 		return
 	}
-
+	// Caller-driven cancellation should not mark a dialer as unavailable.
 	if commonerrors.IsCanceledOrClosed(err) || errors.Is(err, ErrDNSUDPConnPoolExhausted) {
 		return
 	}
@@ -2277,15 +2003,18 @@ func (c *DnsController) shouldRetireCachedDnsForwarder(upstream *dns.Upstream, d
 	if commonerrors.IsCanceledOrClosed(err) || errors.Is(err, ErrDNSUDPConnPoolExhausted) {
 		return false
 	}
-
+	// UDP forwarders keep pooled sockets whose state can be poisoned by a single
+	// timeout or stale-response burst. Flush the whole cached forwarder so the
+	// next query starts from a clean socket pool.
 	if dialArg.l4proto == consts.L4ProtoStr_UDP {
 		return true
 	}
 	if upstream == nil || !isProxyBackedDialer(dialArg.bestDialer) {
 		return false
 	}
-	verifsim.Yield("dns_control.go:2018")
-
+	// Retire any forwarder that has failed too many times in a row, even
+	// stream-style ones, to prevent a permanently broken instance from
+	// accumulating retries without relief.
 	if entry != nil && entry.consecutiveErrors.Load() >= maxConsecutiveForwardErrors {
 		return true
 	}
@@ -2296,7 +2025,10 @@ func (c *DnsController) shouldRetireCachedDnsForwarder(upstream *dns.Upstream, d
 		dns.UpstreamScheme_HTTPS,
 		dns.UpstreamScheme_H3,
 		dns.UpstreamScheme_QUIC:
-
+		// Stream-style forwarders already rebuild their own transport state on
+		// request failures. Retiring the whole cached forwarder for an ordinary
+		// timeout only forces extra cold starts and can amplify control-plane
+		// DNS failures into repeated proxy-host re-resolution loops.
 		return false
 	default:
 		return false
@@ -2307,7 +2039,6 @@ func (c *DnsController) retireCachedDnsForwarder(key dnsForwarderKey, entry *cac
 	if entry == nil {
 		return
 	}
-	verifsim.Yield("dns_control.go:2042")
 	if !c.dnsForwarderCache.CompareAndDelete(key, entry) {
 		return
 	}
@@ -2343,7 +2074,6 @@ func (c *DnsController) getOrCreateDnsForwarder(upstream *dns.Upstream, dialArg 
 	now := time.Now()
 
 	for range 3 {
-		verifsim.Yield("dns_control.go:2077")
 		if cached, ok := c.dnsForwarderCache.Load(key); ok {
 			switch entry := cached.(type) {
 			case *cachedDnsForwarder:
@@ -2351,13 +2081,11 @@ func (c *DnsController) getOrCreateDnsForwarder(upstream *dns.Upstream, dialArg 
 				return entry, nil
 			case DnsForwarder:
 				wrapped := newCachedDnsForwarder(entry, now)
-				verifsim.Yield("dns_control.go:2084")
 				if c.dnsForwarderCache.CompareAndSwap(key, cached, wrapped) {
 					return wrapped, nil
 				}
 				continue
 			default:
-				verifsim.Yield("dns_control.go:2089")
 				c.dnsForwarderCache.CompareAndDelete(key, cached)
 				continue
 			}
@@ -2370,11 +2098,10 @@ func (c *DnsController) getOrCreateDnsForwarder(upstream *dns.Upstream, dialArg 
 		return nil, createErr
 	}
 	created := newCachedDnsForwarder(createdForwarder, now)
-	verifsim.Yield("dns_control.go:2102")
 
 	actual, loaded := c.dnsForwarderCache.LoadOrStore(key, created)
 	if loaded {
-
+		// Another goroutine won the race; close the redundant instance.
 		_ = createdForwarder.Close()
 		if entry, ok := actual.(*cachedDnsForwarder); ok {
 			entry.touch(now)
@@ -2382,11 +2109,9 @@ func (c *DnsController) getOrCreateDnsForwarder(upstream *dns.Upstream, dialArg 
 		}
 		if old, ok := actual.(DnsForwarder); ok {
 			wrapped := newCachedDnsForwarder(old, now)
-			verifsim.Yield("dns_control.go:2112")
 			if c.dnsForwarderCache.CompareAndSwap(key, actual, wrapped) {
 				return wrapped, nil
 			}
-			verifsim.Yield("dns_control.go:2115")
 			if latest, ok := c.dnsForwarderCache.Load(key); ok {
 				if latestEntry, ok := latest.(*cachedDnsForwarder); ok {
 					latestEntry.touch(now)
@@ -2414,9 +2139,12 @@ func (c *DnsController) forwardWithDialArg(ctx context.Context, upstream *dns.Up
 		respMsg, err := entry.forwarder.ForwardDNS(ctx, data)
 		entry.endUse()
 		if err != nil {
-
+			// ErrDNSTruncated is a valid DNS protocol signal (response too
+			// large for UDP), not a transport failure.  Propagate the error
+			// so the caller can react (e.g. tcp+udp fallback, or TC=1 to
+			// client), but do NOT retire the forwarder, penalise the dialer
+			// or emit a misleading failure log.
 			if !errors.Is(err, ErrDNSTruncated) {
-				verifsim.Yield("dns_control.go:2148")
 				entry.consecutiveErrors.Add(1)
 				if c.shouldRetireCachedDnsForwarder(upstream, dialArg, entry, err) {
 					c.retireCachedDnsForwarder(key, entry)
@@ -2426,7 +2154,6 @@ func (c *DnsController) forwardWithDialArg(ctx context.Context, upstream *dns.Up
 			}
 			return nil, err
 		}
-		verifsim.Yield("dns_control.go:2157")
 		entry.consecutiveErrors.Store(0)
 		return respMsg, nil
 	}
@@ -2434,13 +2161,14 @@ func (c *DnsController) forwardWithDialArg(ctx context.Context, upstream *dns.Up
 }
 
 func (c *DnsController) forwardWithFallback(
-	ctx context.Context,
+	ctx context.Context, // Request-scoped context from dialSend/handler
 	req *udpRequest,
 	upstream *dns.Upstream,
 	primaryDialArg *dialArgument,
 	data []byte,
 ) (respMsg *dnsmessage.Msg, usedDialArg *dialArgument, err error) {
-
+	// Per-attempt timeout derived from request context:
+	// preserves cancel propagation while avoiding timeout reuse between UDP/TCP tries.
 	primaryCtx, primaryCancel := context.WithTimeout(ctx, consts.DefaultDialTimeout)
 	defer primaryCancel()
 
@@ -2451,6 +2179,8 @@ func (c *DnsController) forwardWithFallback(
 
 	primaryErr := err
 
+	// For tcp+udp upstream, perform immediate same-request fallback:
+	// prefer UDP, fallback to TCP on failure.
 	if upstream == nil || upstream.Scheme != dns.UpstreamScheme_TCP_UDP || primaryDialArg.l4proto != consts.L4ProtoStr_UDP {
 		return nil, primaryDialArg, primaryErr
 	}
@@ -2472,9 +2202,9 @@ func (c *DnsController) forwardWithFallback(
 
 	if c.log != nil && c.log.IsLevelEnabled(logrus.DebugLevel) {
 		c.log.WithFields(logrus.Fields{
-			"upstream":	upstream.String(),
-			"from":		primaryDialArg.l4proto,
-			"to":		fallbackDialArg.l4proto,
+			"upstream": upstream.String(),
+			"from":     primaryDialArg.l4proto,
+			"to":       fallbackDialArg.l4proto,
 		}).Debugln("DNS fallback to TCP after UDP failure")
 	}
 
@@ -2497,45 +2227,19 @@ func (c *DnsController) HandleWithResponseWriter_(ctx context.Context, dnsMessag
 	c.requireStore()
 	var upstreamIndex consts.DnsRequestOutboundIndex
 	var upstream *dns.Upstream
-	verifsim.Yield("dns_control.go:2231")
 
 	if cap(c.concurrencyLimiter) > 0 {
-		{
-			verifsim.Yield("dns_control.go:2232")
-			_vc48 := c.concurrencyLimiter
-			_vs49 := struct{}{}
-			_vi50 := -1
-			for _, _vo51 := range verifsim.SelectOrder("dns_control.go:2232", 1) {
-				switch _vo51 {
-				case 0:
-					select {
-					case _vc48 <- _vs49:
-						_vi50 = 0
-					default:
-					}
-				}
-				if _vi50 >= 0 {
-					break
+		select {
+		case c.concurrencyLimiter <- struct{}{}:
+			defer func() { <-c.concurrencyLimiter }()
+		default:
+			if responseWriter != nil || (req != nil && req.lConn != nil) {
+				if sendErr := c.sendRefusedWithResponseWriter_(dnsMessage, req, responseWriter); sendErr != nil {
+					return errors.Join(ErrDNSQueryConcurrencyLimitExceeded, sendErr)
 				}
 			}
-			switch _vi50 {
-			case 0:
-				defer func() {
-					verifsim.Yield("dns_control.go:2234")
-					<-c.concurrencyLimiter
-					verifsim.Yield("dns_control.go:2234+")
-				}()
-			default:
-
-				if responseWriter != nil || (req != nil && req.lConn != nil) {
-					if sendErr := c.sendRefusedWithResponseWriter_(dnsMessage, req, responseWriter); sendErr != nil {
-						return errors.Join(ErrDNSQueryConcurrencyLimitExceeded, sendErr)
-					}
-				}
-				return ErrDNSQueryConcurrencyLimitExceeded
-			}
+			return ErrDNSQueryConcurrencyLimitExceeded
 		}
-
 	}
 
 	// Prepare qname, qtype for cache lookup
@@ -2550,8 +2254,11 @@ func (c *DnsController) HandleWithResponseWriter_(ctx context.Context, dnsMessag
 		baseCacheKey = c.cacheKey(qname, qtype)
 	}
 
+	// Route request first, then check cache.
+	// This ensures Reject rules are always applied, even if cache exists.
+	// Cache lookup overhead (~1µs) is negligible compared to network latency (~ms).
 	if baseCacheKey != "" && !dnsMessage.Response {
-
+		// Route request to get upstream
 		rt := c.runtime()
 		if rt == nil || rt.routing == nil {
 			return fmt.Errorf("dns routing is not configured")
@@ -2568,32 +2275,26 @@ func (c *DnsController) HandleWithResponseWriter_(ctx context.Context, dnsMessag
 			return c.sendRejectWithResponseWriter_(dnsMessage, req, responseWriter)
 		}
 
+		// Check cache after routing (non-reject case)
 		if resp, needRefresh := c.LookupDnsRespCache_(dnsMessage, responseCacheKey, false); resp != nil {
-
+			// Cache hit - return immediately without singleflight
+			// OPTIMISTIC CACHE: resp may be stale, trigger background refresh if needed
 			if needRefresh {
-				{
-					_vf52 := c.backgroundRefresh
-					_va53 := responseCacheKey
-					_va54 := dnsMessage
-					_va55 := req
-					_va56 := upstreamIndex
-					_va57 := upstream
-					verifsim.Go("dns_control.go:2284", func() {
-						_vf52(_va53, _va54, _va55, _va56, _va57)
-					})
-				}
+				// Background refresh - don't block the current request
+				go c.backgroundRefresh(responseCacheKey, dnsMessage, req, upstreamIndex, upstream)
 			}
 
 			if err = c.writeCachedResponse(resp, dnsMessage.Id, req, responseWriter); err != nil {
 				return err
 			}
-
+			// Log cache hit with dest addr for CI compatibility.
+			// Format includes "-> dest:port" so CI grep can verify routing.
 			if c.log.IsLevelEnabled(logrus.DebugLevel) && len(dnsMessage.Question) > 0 && req != nil {
 				q := dnsMessage.Question[0]
 				c.log.WithFields(logrus.Fields{
-					"network":	"udp(dns)",
-					"_qname":	strings.ToLower(q.Name),
-					"qtype":	QtypeToString(q.Qtype),
+					"network": "udp(dns)",
+					"_qname":  strings.ToLower(q.Name),
+					"qtype":   QtypeToString(q.Qtype),
 				}).Debugf("%v <-> %v (cache)",
 					RefineSourceToShow(req.realSrc, req.realDst.Addr()),
 					RefineAddrPortToShow(req.realDst),
@@ -2601,23 +2302,30 @@ func (c *DnsController) HandleWithResponseWriter_(ctx context.Context, dnsMessag
 			}
 			return nil
 		}
-		verifsim.Yield("dns_control.go:2308")
 
+		// Cache miss - use singleflight to coalesce concurrent requests
+		// This prevents thundering herd on upstream DNS servers
 		res, err, _ := c.sf.Do(responseCacheKey, func() (any, error) {
-
+			// Shared singleflight resolution should ignore individual client
+			// cancellation, but it must still stop promptly when the DNS
+			// controller is closing during reload/shutdown.
 			resCtx, resCancel := c.newWorkContext(5 * time.Second)
 			defer resCancel()
 
+			// This goroutine performs the actual resolution.
+			// It returns the DNS response message, or an error.
 			return c.resolveForSingleflight(resCtx, dnsMessage, req, upstreamIndex, upstream, responseCacheKey, baseCacheKey)
 		})
-		verifsim.Yield("dns_control.go:2308+")
 
 		if err != nil {
 			return err
 		}
 
+		// res is the *dnsmessage.Msg
 		respMsg := res.(*dnsmessage.Msg)
 
+		// Optimization: Try to get pre-packed response from cache after singleflight.
+		// This avoids another Pack() call which is common in high-concurrency scenarios.
 		if responseCacheKey != "" {
 			if resp, _ := c.LookupDnsRespCache_(dnsMessage, responseCacheKey, false); resp != nil {
 				if err = c.writeCachedResponse(resp, dnsMessage.Id, req, responseWriter); err != nil {
@@ -2627,12 +2335,15 @@ func (c *DnsController) HandleWithResponseWriter_(ctx context.Context, dnsMessag
 			}
 		}
 
+		// Write response.
+		// For packet-send path, avoid deep-copying DNS message and just patch ID in packed bytes.
 		if responseWriter != nil {
 			respMsgUnique := respMsg.Copy()
 			respMsgUnique.Id = dnsMessage.Id
 			return responseWriter.WriteMsg(respMsgUnique)
 		}
 
+		// If no responseWriter (internal UDP path), pack and send directly.
 		data, err := respMsg.Pack()
 		if err != nil {
 			return fmt.Errorf("pack DNS packet: %w", err)
@@ -2653,7 +2364,11 @@ func (c *DnsController) HandleWithResponseWriter_(ctx context.Context, dnsMessag
 }
 
 func (c *DnsController) resolveForSingleflight(ctx context.Context, dnsMessage *dnsmessage.Msg, req *udpRequest, upstreamIndex consts.DnsRequestOutboundIndex, upstream *dns.Upstream, responseCacheKey string, baseCacheKey string) (*dnsmessage.Msg, error) {
+	// We need a way to capture the response message from the resolution process.
+	// Currently `handleWithResponseWriterInternal` writes to a writer or sends a packet.
+	// We need to refactor or spy on it.
 
+	// Since refactoring everything is risky, let's use a Fake ResponseWriter to capture the message.
 	capturer := &msgCapturer{}
 	err := c.handleWithResponseWriterInternal(ctx, dnsMessage, req, capturer, upstreamIndex, upstream, responseCacheKey, baseCacheKey)
 	if err != nil {
@@ -2669,18 +2384,23 @@ type msgCapturer struct {
 	msg *dnsmessage.Msg
 }
 
-func (m *msgCapturer) LocalAddr() net.Addr	{ return nil }
-func (m *msgCapturer) RemoteAddr() net.Addr	{ return nil }
+func (m *msgCapturer) LocalAddr() net.Addr  { return nil }
+func (m *msgCapturer) RemoteAddr() net.Addr { return nil }
 func (m *msgCapturer) WriteMsg(msg *dnsmessage.Msg) error {
 	m.msg = msg
 	return nil
 }
-func (m *msgCapturer) Write(b []byte) (int, error)	{ return 0, nil }
-func (m *msgCapturer) Close() error			{ return nil }
-func (m *msgCapturer) TsigStatus() error		{ return nil }
-func (m *msgCapturer) TsigTimersOnly(bool)		{}
-func (m *msgCapturer) Hijack()				{}
+func (m *msgCapturer) Write(b []byte) (int, error) { return 0, nil }
+func (m *msgCapturer) Close() error                { return nil }
+func (m *msgCapturer) TsigStatus() error           { return nil }
+func (m *msgCapturer) TsigTimersOnly(bool)         {}
+func (m *msgCapturer) Hijack()                     {}
 
+// handleWithResponseWriterInternal handles DNS requests with response writer.
+// When ip_version_prefer is set, it implements RFC 8305 Happy Eyeballs
+// Resolution Delay: wait briefly for preferred response type before responding.
+//
+// Renamed from HandleWithResponseWriter_ to internal to avoid recursion loop with SF.
 func (c *DnsController) handleWithResponseWriterInternal(ctx context.Context, dnsMessage *dnsmessage.Msg, req *udpRequest, responseWriter dnsmessage.ResponseWriter, upstreamIndex consts.DnsRequestOutboundIndex, upstream *dns.Upstream, responseCacheKey string, baseCacheKey string) (err error) {
 	if c.log.IsLevelEnabled(logrus.TraceLevel) && len(dnsMessage.Question) > 0 {
 		q := dnsMessage.Question[0]
@@ -2699,10 +2419,14 @@ func (c *DnsController) handleWithResponseWriterInternal(ctx context.Context, dn
 		qtype = dnsMessage.Question[0].Qtype
 	}
 
+	// Fast path: no ip_version_prefer set, bypass all preference logic
 	if c.currentQtypePrefer() == 0 {
 		return c.handleWithResponseWriter_(ctx, dnsMessage, req, true, responseWriter, upstreamIndex, upstream, responseCacheKey, baseCacheKey)
 	}
 
+	// Only A and AAAA responses participate in preference waiting. The wait is
+	// applied after upstream resolution so cached/direct non-address responses
+	// keep the fast path.
 	if qtype != dnsmessage.TypeA && qtype != dnsmessage.TypeAAAA {
 		return c.handleWithResponseWriter_(ctx, dnsMessage, req, true, responseWriter, upstreamIndex, upstream, responseCacheKey, baseCacheKey)
 	}
@@ -2730,6 +2454,7 @@ func (c *DnsController) handleWithResponseWriter_(
 		qtype = q.Qtype
 	}
 
+	// Route request if not already routed.
 	if upstream == nil && upstreamIndex == 0 {
 		rt := c.runtime()
 		if rt == nil || rt.routing == nil {
@@ -2749,7 +2474,7 @@ func (c *DnsController) handleWithResponseWriter_(
 	}
 
 	if upstreamIndex == consts.DnsRequestOutboundIndex_Reject {
-
+		// Reject with empty answer.
 		c.RemoveDnsRespCacheFamily(baseCacheKey)
 		if !needResp {
 			return nil
@@ -2758,19 +2483,10 @@ func (c *DnsController) handleWithResponseWriter_(
 	}
 
 	if resp, needRefresh := c.LookupDnsRespCache_(dnsMessage, responseCacheKey, false); resp != nil {
-
+		// Send cache to client directly.
+		// OPTIMISTIC CACHE: Trigger background refresh if stale
 		if needRefresh {
-			{
-				_vf58 := c.backgroundRefresh
-				_va59 := responseCacheKey
-				_va60 := dnsMessage
-				_va61 := req
-				_va62 := upstreamIndex
-				_va63 := upstream
-				verifsim.Go("dns_control.go:2489", func() {
-					_vf58(_va59, _va60, _va61, _va62, _va63)
-				})
-			}
+			go c.backgroundRefresh(responseCacheKey, dnsMessage, req, upstreamIndex, upstream)
 		}
 
 		if needResp {
@@ -2797,11 +2513,12 @@ func (c *DnsController) handleWithResponseWriter_(
 			upstreamName = upstream.String()
 		}
 		c.log.WithFields(logrus.Fields{
-			"question":	dnsMessage.Question,
-			"upstream":	upstreamName,
+			"question": dnsMessage.Question,
+			"upstream": upstreamName,
 		}).Traceln("Request to DNS upstream")
 	}
 
+	// Re-pack DNS packet.
 	data, err := dnsMessage.Pack()
 	if err != nil {
 		return fmt.Errorf("pack DNS packet: %w", err)
@@ -2809,24 +2526,33 @@ func (c *DnsController) handleWithResponseWriter_(
 	return c.dialSend(ctx, 0, req, data, dnsMessage.Id, upstream, needResp, responseWriter, responseCacheKey, baseCacheKey)
 }
 
+// writeCachedResponse sends a cached DNS response to the client.
+// OPTIMIZED: Uses pre-packed response with ID patching to avoid Pack() overhead.
+// For responseWriter path, uses Unpack/WriteMsg (slower but handles ID correctly).
+// For UDP path, patches the ID directly using buffer pool to avoid allocations.
 func (c *DnsController) writeCachedResponse(resp []byte, reqId uint16, req *udpRequest, responseWriter dnsmessage.ResponseWriter) error {
+	// Optimization: Patch ID directly in the packed buffer if possible.
+	// For UDP, we can use Write() directly. For TCP, we might need WriteMsg or manual length.
+	// However, most responseWriters here are either UDP or wrappers that handle message framing.
 
 	if responseWriter != nil {
 		var respMsg dnsmessage.Msg
 		if err := respMsg.Unpack(resp); err != nil {
 			return fmt.Errorf("failed to unpack DNS response: %w", err)
 		}
-
+		// Set the correct ID from the original request
 		respMsg.Id = reqId
 		return responseWriter.WriteMsg(&respMsg)
 	}
 
+	// For UDP path, directly send pre-packed response with patched ID
 	if req == nil || req.lConn == nil {
 		return fmt.Errorf("dns request connection is nil for cached response")
 	}
 
+	// OPTIMIZATION: Use buffer pool to avoid memory allocation on every cache hit.
+	// DNS Message ID is in the first 2 bytes (big-endian).
 	if len(resp) >= 2 && len(resp) <= 1024 {
-		verifsim.Yield("dns_control.go:2556")
 		bufPtr := dnsResponseBufPool.Get().(*[]byte)
 		defer dnsResponseBufPool.Put(bufPtr)
 
@@ -2834,12 +2560,16 @@ func (c *DnsController) writeCachedResponse(resp []byte, reqId uint16, req *udpR
 		copy(patchedResp, resp)
 		binary.BigEndian.PutUint16(patchedResp[0:2], reqId)
 
+		// Transparent DNS replies must preserve the original DNS server tuple.
+		// sendPkt also carries the DNS port-conflict raw fallback for host-local
+		// clients where binding the source address may fail transiently.
 		if err := sendRuntimeTrackedPkt(c.log, patchedResp, req.realDst, req.realSrc, req.downloadRecorder()); err != nil {
 			return fmt.Errorf("failed to write cached DNS resp: %w", err)
 		}
 		return nil
 	}
 
+	// Fallback for oversized responses (rare)
 	patchedResp := make([]byte, len(resp))
 	copy(patchedResp, resp)
 	if len(resp) >= 2 {
@@ -2852,6 +2582,9 @@ func (c *DnsController) writeCachedResponse(resp []byte, reqId uint16, req *udpR
 	return nil
 }
 
+// sendDnsErrorResponse_ is the shared implementation for both sendRejectWithResponseWriter_
+// and sendRefusedWithResponseWriter_. It sets the common response fields, logs at trace
+// level, and sends the response via responseWriter or UDP.
 func (c *DnsController) sendDnsErrorResponse_(
 	dnsMessage *dnsmessage.Msg,
 	rcode int,
@@ -2886,6 +2619,7 @@ func (c *DnsController) sendDnsErrorResponse_(
 	return nil
 }
 
+// sendRefusedWithResponseWriter_ sends REFUSED response when overload protection is triggered.
 func (c *DnsController) sendRefusedWithResponseWriter_(dnsMessage *dnsmessage.Msg, req *udpRequest, responseWriter dnsmessage.ResponseWriter) (err error) {
 	return c.sendDnsErrorResponse_(dnsMessage, dnsmessage.RcodeRefused, "Refused due to concurrency limit", req, responseWriter)
 }
@@ -2918,17 +2652,28 @@ func (c *DnsController) sendDnsTruncatedResponse_(dnsMessage *dnsmessage.Msg, re
 	return nil
 }
 
+// sendRejectWithResponseWriter_ send empty answer.
 func (c *DnsController) sendRejectWithResponseWriter_(dnsMessage *dnsmessage.Msg, req *udpRequest, responseWriter dnsmessage.ResponseWriter) (err error) {
 	return c.sendDnsErrorResponse_(dnsMessage, dnsmessage.RcodeSuccess, "Reject", req, responseWriter)
 }
 
+// applyPreferenceWait implements RFC 8305 Happy Eyeballs Resolution Delay.
+// When ip_version_prefer is set and a non-preferred A/AAAA response is received,
+// wait briefly (50ms) for the preferred response to arrive before using this one.
+//
+// This function handles two scenarios:
+// 1. Non-preferred response arrives (e.g., A when prefer=6): Register wait and wait for preferred
+// 2. Preferred response arrives (e.g., AAAA when prefer=6): Notify any waiting requests
+//
+// The function returns the response to use (preferred if arrived during wait, otherwise original).
 func (c *DnsController) applyPreferenceWait(respMsg *dnsmessage.Msg) *dnsmessage.Msg {
 	c.requireStore()
-
+	// Fast path: preference not enabled
 	if c.currentQtypePrefer() == 0 {
 		return respMsg
 	}
 
+	// Only handle A/AAAA responses
 	if len(respMsg.Question) == 0 {
 		return respMsg
 	}
@@ -2937,11 +2682,13 @@ func (c *DnsController) applyPreferenceWait(respMsg *dnsmessage.Msg) *dnsmessage
 		return respMsg
 	}
 
+	// Get canonical qname for matching
 	qname := dnsmessage.CanonicalName(q.Name)
 
+	// Case 1: This is the preferred response type - notify waiting requests
 	qtypePrefer := c.currentQtypePrefer()
 	if isPreferredType(q.Qtype, qtypePrefer) {
-
+		// Notify any waiting requests for this domain
 		if c.prefWaitRegistry.notifyPreferred(qname, q.Qtype, qtypePrefer) {
 			if c.log.IsLevelEnabled(logrus.TraceLevel) {
 				c.log.Tracef("Preferred %v response for %v notified waiting request", QtypeToString(q.Qtype), qname)
@@ -2950,15 +2697,18 @@ func (c *DnsController) applyPreferenceWait(respMsg *dnsmessage.Msg) *dnsmessage
 		return respMsg
 	}
 
+	// Case 2: This is a non-preferred response - register wait and wait for preferred
 	if wait := c.prefWaitRegistry.registerWait(qname, q.Qtype, qtypePrefer); wait != nil {
-
+		// Non-preferred response arrived before preferred - wait briefly for preferred
 		if c.log.IsLevelEnabled(logrus.TraceLevel) {
 			c.log.Tracef("Non-preferred %v response for %v, waiting %v for preferred %v",
 				QtypeToString(q.Qtype), qname, PreferenceResolutionDelay, QtypeToString(qtypePrefer))
 		}
 
+		// Wait for preferred response or timeout
 		preferred := wait.waitFor()
 
+		// Clean up wait registry
 		c.prefWaitRegistry.remove(qname)
 
 		if preferred {
@@ -2971,6 +2721,8 @@ func (c *DnsController) applyPreferenceWait(respMsg *dnsmessage.Msg) *dnsmessage
 				QtypeToString(qtypePrefer), qname, PreferenceResolutionDelay, QtypeToString(q.Qtype))
 		}
 
+		// Always return the original response. The wait only changes when we
+		// release the response, not the DNS question/answer type pairing.
 		return respMsg
 	}
 
@@ -2989,13 +2741,14 @@ func (c *DnsController) dialSend(
 	responseCacheKey string,
 	baseCacheKey string,
 ) (err error) {
-	data = append([]byte(nil), data...)
+	data = append([]byte(nil), data...) // defensive copy: callers may reuse the slice across recursive retries
 	if invokingDepth >= MaxDnsLookupDepth {
 		return fmt.Errorf("too deep DNS lookup invoking (depth: %v); there may be infinite loop in your DNS response routing", MaxDnsLookupDepth)
 	}
 
 	upstreamName := "asis"
 	if upstream == nil {
+		// As-is.
 
 		// As-is should not be valid in response routing, thus using connection realDest is reasonable.
 		var ip46 netutils.Ip46
@@ -3005,15 +2758,16 @@ func (c *DnsController) dialSend(
 			ip46.Ip6 = req.realDst.Addr()
 		}
 		upstream = &dns.Upstream{
-			Scheme:		"udp",
-			Hostname:	req.realDst.Addr().String(),
-			Port:		req.realDst.Port(),
-			Ip46:		&ip46,
+			Scheme:   "udp",
+			Hostname: req.realDst.Addr().String(),
+			Port:     req.realDst.Port(),
+			Ip46:     &ip46,
 		}
 	} else {
 		upstreamName = upstream.String()
 	}
 
+	// Select best dial arguments (outbound, dialer, l4proto, ipversion, etc.)
 	rt := c.runtime()
 	if rt == nil || rt.bestDialerChooser == nil {
 		return fmt.Errorf("dns controller runtime bestDialerChooser is not configured")
@@ -3032,12 +2786,13 @@ func (c *DnsController) dialSend(
 	}
 
 	networkType := &dialer.NetworkType{
-		L4Proto:		usedDialArg.l4proto,
-		IpVersion:		usedDialArg.ipversion,
-		IsDns:			true,
-		UdpHealthDomain:	dialer.UdpHealthDomainDns,
+		L4Proto:         usedDialArg.l4proto,
+		IpVersion:       usedDialArg.ipversion,
+		IsDns:           true,
+		UdpHealthDomain: dialer.UdpHealthDomainDns,
 	}
 
+	// Route response.
 	if rt.routing == nil {
 		return fmt.Errorf("dns routing is not configured")
 	}
@@ -3047,40 +2802,42 @@ func (c *DnsController) dialSend(
 	}
 	switch upstreamIndex {
 	case consts.DnsResponseOutboundIndex_Accept:
-
+		// Accept.
 		if c.log.IsLevelEnabled(logrus.TraceLevel) {
 			c.log.WithFields(logrus.Fields{
-				"question":	respMsg.Question,
-				"upstream":	upstreamName,
+				"question": respMsg.Question,
+				"upstream": upstreamName,
 			}).Traceln("Accept")
 		}
 	case consts.DnsResponseOutboundIndex_Reject:
-
+		// Reject the request with empty answer.
 		respMsg.Answer = nil
 		if c.log.IsLevelEnabled(logrus.TraceLevel) {
 			c.log.WithFields(logrus.Fields{
-				"question":	respMsg.Question,
-				"upstream":	upstreamName,
+				"question": respMsg.Question,
+				"upstream": upstreamName,
 			}).Traceln("Reject with empty answer")
 		}
-
+		// We also cache response reject.
 	default:
 		if c.log.IsLevelEnabled(logrus.TraceLevel) {
 			c.log.WithFields(logrus.Fields{
-				"question":		respMsg.Question,
-				"last_upstream":	upstreamName,
-				"next_upstream":	nextUpstream.String(),
+				"question":      respMsg.Question,
+				"last_upstream": upstreamName,
+				"next_upstream": nextUpstream.String(),
 			}).Traceln("Change DNS upstream and resend")
 		}
 		return c.dialSend(ctx, invokingDepth+1, req, data, id, nextUpstream, needResp, responseWriter, responseCacheKey, baseCacheKey)
 	}
 
+	// Apply preference wait logic for A/AAAA responses.
+	// This must happen before logging and sending the response.
 	respMsg = c.applyPreferenceWait(respMsg)
 
 	if upstreamIndex.IsReserved() && c.log.IsLevelEnabled(logrus.DebugLevel) {
 		var (
-			qname	string
-			qtype	string
+			qname string
+			qtype string
 		)
 		if len(respMsg.Question) > 0 {
 			q := respMsg.Question[0]
@@ -3088,16 +2845,16 @@ func (c *DnsController) dialSend(
 			qtype = QtypeToString(q.Qtype)
 		}
 		fields := logrus.Fields{
-			"network":	networkType.String(),
-			"outbound":	usedDialArg.bestOutbound.Name,
-			"policy":	usedDialArg.bestOutbound.GetSelectionPolicy(),
-			"dialer":	usedDialArg.bestDialer.Property().Name,
-			"_qname":	qname,
-			"qtype":	qtype,
-			"pid":		req.routingResult.Pid,
-			"dscp":		req.routingResult.Dscp,
-			"pname":	ProcessName2String(req.routingResult.Pname[:]),
-			"mac":		Mac2String(req.routingResult.Mac[:]),
+			"network":  networkType.String(),
+			"outbound": usedDialArg.bestOutbound.Name,
+			"policy":   usedDialArg.bestOutbound.GetSelectionPolicy(),
+			"dialer":   usedDialArg.bestDialer.Property().Name,
+			"_qname":   qname,
+			"qtype":    qtype,
+			"pid":      req.routingResult.Pid,
+			"dscp":     req.routingResult.Dscp,
+			"pname":    ProcessName2String(req.routingResult.Pname[:]),
+			"mac":      Mac2String(req.routingResult.Mac[:]),
 		}
 		switch upstreamIndex {
 		case consts.DnsResponseOutboundIndex_Accept:
@@ -3109,13 +2866,26 @@ func (c *DnsController) dialSend(
 		}
 	}
 
+	// Optimization: Send response first, then cache asynchronously.
+	// This reduces client-perceived latency.
+	//
+	// Cache operations and BPF updates are fast, but doing them async is still beneficial:
+	// - Reduces tail latency under load
+	// - Follows "respond first, process later" best practice
+	//
+	// Trade-off: If caching fails, the response is still valid but won't be cached.
+	// This is acceptable because:
+	// - Cache failures are rare
+	// - The response is already sent to the client
+	// - Next request for same domain will just hit upstream again
 	if needResp {
-
+		// Keep the id the same with request.
 		respMsg.Id = id
 		respMsg.Compress = true
-
+		// If responseWriter is provided (e.g., for singleflight), use it to write the response.
 		if responseWriter != nil {
-
+			// For responseWriter path, cache synchronously because
+			// responseWriter may need the message after we return.
 			if err = c.NormalizeAndCacheDnsResp_(respMsg, responseCacheKey); err != nil {
 				c.log.Warnf("failed to cache DNS response: %v", err)
 			}
@@ -3128,7 +2898,11 @@ func (c *DnsController) dialSend(
 		if err = sendRuntimeTrackedPkt(c.log, data, req.realDst, req.realSrc, req.downloadRecorder()); err != nil {
 			return err
 		}
-		verifsim.Go("dns_control.go:2905", func() {
+
+		// Cache asynchronously after sending response (UDP path only).
+		// respMsg is owned by this function and won't be accessed after return,
+		// so it's safe to use in goroutine without copying.
+		go func() {
 			defer func() {
 				if r := recover(); r != nil {
 					c.log.Errorf("panic in async DNS cache: %v", r)
@@ -3137,31 +2911,39 @@ func (c *DnsController) dialSend(
 			if err := c.NormalizeAndCacheDnsResp_(respMsg, responseCacheKey); err != nil {
 				c.log.Debugf("failed to cache DNS response (async): %v", err)
 			}
-		})
+		}()
 
 		return nil
 	}
 
+	// No response needed, just cache synchronously
 	if err = c.NormalizeAndCacheDnsResp_(respMsg, responseCacheKey); err != nil {
 		return err
 	}
 	return nil
 }
 
+// buildMinHeap constructs a min-heap from the cache entries slice.
+// The heap property: parent <= children (root is minimum, i.e., oldest access).
+// Time complexity: O(n)
 func buildMinHeap(entries []cacheEntry) {
 	n := len(entries)
-
+	// Start from the last non-leaf node and heapify down
 	for i := n/2 - 1; i >= 0; i-- {
 		heapifyMin(entries, i, n)
 	}
 }
 
+// heapifyMin restores the min-heap property for the subtree rooted at index i.
+// The heap size is limited to n elements.
+// Time complexity: O(log n)
 func heapifyMin(entries []cacheEntry, i, n int) {
 	for {
 		smallest := i
 		left := 2*i + 1
 		right := 2*i + 2
 
+		// Find smallest (oldest) among root, left child, and right child
 		if left < n && entries[left].lastAccess < entries[smallest].lastAccess {
 			smallest = left
 		}
@@ -3169,10 +2951,12 @@ func heapifyMin(entries []cacheEntry, i, n int) {
 			smallest = right
 		}
 
+		// If root is already smallest, heap property is satisfied
 		if smallest == i {
 			break
 		}
 
+		// Swap and continue heapifying
 		entries[i], entries[smallest] = entries[smallest], entries[i]
 		i = smallest
 	}
